@@ -151,9 +151,20 @@ Fixpoint todo (stk : list atom) : list tree :=
   | a :: rest => todo_atom a ++ todo rest
   end.
 
+Definition leafy (n : tree) : Prop := forall m, In m (nodes n) -> contents m <> [].
+Definition is_leaf (n : tree) : Prop := exists k v, n = Leaf k v.
+Definition atom_ok (pb : pbuilder) (n : tree) (st : vstate) : Prop :=
+  n <> Nil /\ (st <> VB -> In n (inc pb)) /\ (is_leaf n -> st = VB) /\ leafy n.
 Definition good (stk : list atom) (pb : pbuilder) : Prop :=
   pb_ok pb /\ NoDup (inc pb ++ todo stk) /\
-  (forall n st, In (n, st) stk -> n <> Nil /\ (st <> VB -> In n (inc pb))).
+  (forall n st, In (n, st) stk -> atom_ok pb n st).
+
+Lemma leafy_l lbl lf l r : leafy (Node lbl lf l r) -> leafy l.
+Proof. intros L m Hm. apply L. cbn [nodes]. right. rewrite !in_app_iff. auto. Qed.
+Lemma leafy_r lbl lf l r : leafy (Node lbl lf l r) -> leafy r.
+Proof. intros L m Hm. apply L. cbn [nodes]. right. rewrite !in_app_iff. auto. Qed.
+Lemma leafy_leaf k v : leafy (Leaf k v).
+Proof. intros m [<-|[]]. discriminate. Qed.
 
 Lemma todo_push_child c stk : todo (push_child c stk) = nodes c ++ todo stk.
 Proof. destruct c; reflexivity. Qed.
@@ -167,6 +178,9 @@ Proof. destruct c; cbn; auto; intros [[= <- <-]|?]; auto; left; repeat split; di
 Lemma NoDup_move {A} (a : list A) x b : NoDup (a ++ x :: b) -> NoDup ((x :: a) ++ b).
 Proof. intros Hn. eapply Permutation_NoDup; [|exact Hn]. apply Permutation_sym, Permutation_middle. Qed.
 
+Lemma atom_ok_mono pb pb' n st : incl (inc pb) (inc pb') -> atom_ok pb n st -> atom_ok pb' n st.
+Proof. intros Hi (H1 & H2 & H3 & H4). repeat split; auto. Qed.
+
 Lemma good_step a rest pb :
   good (a :: rest) pb ->
   good (fst (mstep a rest)) (include (fst a) pb) /\
@@ -175,9 +189,12 @@ Lemma good_step a rest pb :
     (psize pb + if match snd a with VB => true | _ => false end then node_size (fst a) else 0)%N.
 Proof.
   destruct a as [nd st]. intros (Hok & Hnd & Hst). cbn [fst snd].
-  destruct (Hst nd st (or_introl eq_refl)) as [Hnn Hinc].
-  assert (forall n0 st0, In (n0, st0) rest -> n0 <> Nil /\ (st0 <> VB -> In n0 (inc pb))) as Hrest
-    by (intros; apply Hst; now right).
+  destruct (Hst nd st (or_introl eq_refl)) as (Hnn & Hinc & Hlf & Hly).
+  assert (forall n0 st0, In (n0, st0) rest -> atom_ok pb n0 st0) as Hrest by (intros; apply Hst; now right).
+  assert (st <> VB -> include nd pb = pb) as Esame.
+  { intros Hs. specialize (Hinc Hs). unfold include.
+    destruct nd; [reflexivity| |]; (destruct (existsb _ (inc pb)) eqn:E; [reflexivity|]);
+      exfalso; apply mem_tree_in in Hinc; congruence. }
   destruct st.
   - (* VB: a node never seen before *)
     assert (~ In nd (inc pb)) as Hni.
@@ -188,10 +205,11 @@ Proof.
         (destruct (existsb _ (inc pb)) eqn:E; [apply mem_tree_in in E; contradiction|reflexivity]). }
     rewrite Einc. cbn [inc psize]. split; [|split; reflexivity].
     destruct (include_ok nd pb Hok) as [Hok' _]. rewrite Einc in Hok'.
+    assert (forall n0 st0, In (n0, st0) rest -> atom_ok (mkpb (nd :: inc pb) (psize pb + node_size nd)) n0 st0) as Hrest'.
+    { intros n0 st0 Hin. eapply atom_ok_mono; [|apply Hrest; exact Hin]. cbn [inc]. intros x Hx. now right. }
     unfold mstep. cbn [fst snd]. destruct nd as [|k v|lbl lf l r]; [congruence| |]; cbn [fst].
-    + split; [assumption|]. split.
-      * cbn [todo todo_atom fst snd nodes inc app] in *. apply NoDup_move. exact Hnd.
-      * intros n0 st0 Hin. destruct (Hrest _ _ Hin) as [? Hi]. split; [assumption|]. intros Hs. right. auto.
+    + split; [assumption|]. split; [|exact Hrest'].
+      cbn [todo todo_atom fst snd nodes inc app] in *. apply NoDup_move. exact Hnd.
     + split; [assumption|]. split.
       * cbn [inc]. cbn [todo todo_atom fst snd nodes] in Hnd.
         assert (todo (lfatom lf ++ (Node lbl lf l r, VA) :: rest) = lfnode lf ++ (nodes l ++ nodes r) ++ todo rest) as ->
@@ -199,44 +217,1319 @@ Proof.
         apply NoDup_move. cbn [app] in Hnd. rewrite <- !app_assoc in Hnd. rewrite <- !app_assoc. exact Hnd.
       * intros n0 st0 Hin. rewrite in_app_iff in Hin. destruct Hin as [Hin|[[= <- <-]|Hin]].
         -- destruct lf as [[k v]|]; cbn in Hin; [|tauto]. destruct Hin as [[= <- <-]|[]].
-           split; [discriminate|congruence].
-        -- split; [discriminate|]. intros _. now left.
-        -- destruct (Hrest _ _ Hin) as [? Hi]. split; [assumption|]. intros Hs. right. auto.
+           repeat split; [discriminate|congruence|apply leafy_leaf].
+        -- repeat split; [discriminate|intros _; now left|intros (k & v & E); discriminate|exact Hly].
+        -- now apply Hrest'.
   - (* VA *)
-    specialize (Hinc ltac:(discriminate)).
-    assert (include nd pb = pb) as Einc.
-    { unfold include. destruct nd; [reflexivity| |]; (destruct (existsb _ (inc pb)) eqn:E; [reflexivity|]);
-        exfalso; apply mem_tree_in in Hinc; congruence. }
-    rewrite Einc. split; [|split; [reflexivity|lia]].
+    rewrite (Esame ltac:(discriminate)). split; [|split; [reflexivity|lia]].
     unfold mstep. cbn [fst snd]. destruct nd as [|k v|lbl lf l r]; [congruence| |]; cbn [fst].
-    + split; [assumption|]. split; [exact Hnd|]. intros; apply Hrest; assumption.
+    + exfalso. assert (VA = VB) by (apply Hlf; eexists; eexists; reflexivity). discriminate.
     + split; [assumption|]. split.
       * rewrite todo_push_child. cbn [todo todo_atom fst snd] in *. rewrite <- ?app_assoc in *. exact Hnd.
       * intros n0 st0 Hin. apply push_child_in in Hin as [(-> & -> & Hc)|[[= <- <-]|Hin]].
-        -- split; [assumption|congruence].
-        -- split; [discriminate|auto].
+        -- repeat split; [assumption|congruence|eapply leafy_l; eauto].
+        -- repeat split; [discriminate|intros _; apply Hinc; discriminate|intros (k & v & E); discriminate|exact Hly].
         -- now apply Hrest.
   - (* VL *)
-    specialize (Hinc ltac:(discriminate)).
-    assert (include nd pb = pb) as Einc.
-    { unfold include. destruct nd; [reflexivity| |]; (destruct (existsb _ (inc pb)) eqn:E; [reflexivity|]);
-        exfalso; apply mem_tree_in in Hinc; congruence. }
-    rewrite Einc. split; [|split; [reflexivity|lia]].
+    rewrite (Esame ltac:(discriminate)). split; [|split; [reflexivity|lia]].
     unfold mstep. cbn [fst snd]. destruct nd as [|k v|lbl lf l r]; [congruence| |]; cbn [fst].
-    + split; [assumption|]. split; [exact Hnd|]. intros; apply Hrest; assumption.
+    + exfalso. assert (VL = VB) by (apply Hlf; eexists; eexists; reflexivity). discriminate.
     + split; [assumption|]. split.
       * rewrite todo_push_child. cbn [todo todo_atom fst snd] in *. rewrite <- ?app_assoc in *. exact Hnd.
       * intros n0 st0 Hin. apply push_child_in in Hin as [(-> & -> & Hc)|[[= <- <-]|Hin]].
-        -- split; [assumption|congruence].
-        -- split; [discriminate|auto].
+        -- repeat split; [assumption|congruence|eapply leafy_r; eauto].
+        -- repeat split; [discriminate|intros _; apply Hinc; discriminate|intros (k & v & E); discriminate|exact Hly].
         -- now apply Hrest.
   - (* VR *)
-    specialize (Hinc ltac:(discriminate)).
-    assert (include nd pb = pb) as Einc.
-    { unfold include. destruct nd; [reflexivity| |]; (destruct (existsb _ (inc pb)) eqn:E; [reflexivity|]);
-        exfalso; apply mem_tree_in in Hinc; congruence. }
-    rewrite Einc. split; [|split; [reflexivity|lia]].
+    rewrite (Esame ltac:(discriminate)). split; [|split; [reflexivity|lia]].
     unfold mstep. cbn [fst snd]. destruct nd as [|k v|lbl lf l r]; [congruence| |]; cbn [fst].
-    + split; [assumption|]. split; [exact Hnd|]. intros; apply Hrest; assumption.
-    + split; [assumption|]. split; [cbn [todo todo_atom fst snd app] in Hnd; exact Hnd|]. intros; apply Hrest; assumption.
+    + exfalso. assert (VR = VB) by (apply Hlf; eexists; eexists; reflexivity). discriminate.
+    + split; [assumption|]. split; [cbn [todo todo_atom fst snd app] in Hnd; exact Hnd|exact Hrest].
 Qed.
+
+(* ------------------------------------------------------------------ *)
+(* 2. what the stack will still visit, with the cost each key adds      *)
+(* ------------------------------------------------------------------ *)
+Definition em := (entry * N)%type.
+Definition toem (a : aent) : em := (aentry a, amarg a).
+Definition bumpm (c : N) (l : list em) : list em :=
+  match l with (e, m) :: r => (e, (m + c)%N) :: r | [] => [] end.
+Definition margs (t : tree) : list em := map toem (annot 0 t).
+
+Lemma map_bump c l : map toem (bump c l) = bumpm c (map toem l).
+Proof. destruct l as [|[[e f] m] r]; reflexivity. Qed.
+
+Lemma margs_any t : forall A, map toem (annot A t) = margs t.
+Proof.
+  unfold margs. induction t as [|k v|lbl lf l IHl r IHr]; intros A; cbn [annot]; try reflexivity.
+  rewrite !map_bump, !map_app, IHl, IHr, (IHl (0 + _)%N), (IHr (0 + _)%N). f_equal. f_equal.
+  destruct lf as [[k v]|]; reflexivity.
+Qed.
+
+Definition margs_lf (lf : option entry) : list em :=
+  match lf with Some (k, v) => [((k, v), leaf_cost k v)] | None => [] end.
+Lemma margs_node lbl lf l r :
+  margs (Node lbl lf l r) = bumpm (node_cost lbl lf) (margs_lf lf ++ margs l ++ margs r).
+Proof.
+  unfold margs at 1. cbn [annot]. rewrite map_bump, !map_app, !margs_any. f_equal. f_equal.
+  destruct lf as [[k v]|]; reflexivity.
+Qed.
+Lemma margs_entries t : map fst (margs t) = contents t.
+Proof. unfold margs. rewrite map_map. rewrite <- (annot_entries t 0%N). apply map_ext. intros [[e f] m]. reflexivity. Qed.
+
+Definition fut_atom (a : atom) : list em :=
+  match snd a with
+  | VB => margs (fst a)
+  | VA => match fst a with Node _ _ l r => margs l ++ margs r | _ => [] end
+  | VL => match fst a with Node _ _ l r => margs r | _ => [] end
+  | VR => []
+  end.
+Fixpoint fut (stk : list atom) : list em :=
+  match stk with [] => [] | a :: rest => fut_atom a ++ fut rest end.
+
+Lemma fut_push_child c stk : fut (push_child c stk) = margs c ++ fut stk.
+Proof. destruct c; reflexivity. Qed.
+
+Fixpoint tm (size acc : N) (l : list em) : list entry :=
+  match l with
+  | [] => []
+  | (e, m) :: r => if (acc <? size)%N then e :: tm size (acc + m) r else []
+  end.
+Lemma take_more_tm size l : forall acc, take_more size acc l = tm size acc (map toem l).
+Proof. induction l as [|[[e f] m] r IH]; intros acc; cbn; [reflexivity|]. now rewrite IH. Qed.
+
+Lemma bumpm_app c a b : a <> [] -> bumpm c (a ++ b) = bumpm c a ++ b.
+Proof. destruct a as [|[e m] a]; [congruence|reflexivity]. Qed.
+
+(* the effect of one pop on the future *)
+Lemma fut_step a rest pb :
+  good (a :: rest) pb ->
+  match snd (mstep a rest) with
+  | EvLeaf e => fut (a :: rest) = (e, node_size (fst a)) :: fut (fst (mstep a rest)) /\ snd a = VB
+  | EvOpen => fut (a :: rest) = bumpm (node_size (fst a)) (fut (fst (mstep a rest))) /\
+              fut (fst (mstep a rest)) <> [] /\ snd a = VB
+  | EvOther => fut (a :: rest) = fut (fst (mstep a rest)) /\ snd a <> VB
+  end.
+Proof.
+  destruct a as [nd st]. intros (_ & _ & Hst). destruct (Hst nd st (or_introl eq_refl)) as (Hnn & _ & Hlf & Hly).
+  unfold mstep. cbn [fst snd]. destruct nd as [|k v|lbl lf l r]; [congruence| |].
+  - cbn [snd fst]. assert (st = VB) as -> by (apply Hlf; eexists; eexists; reflexivity).
+    split; reflexivity.
+  - destruct st; cbn [snd fst fut fut_atom].
+    + rewrite margs_node.
+      assert (fut (lfatom lf ++ (Node lbl lf l r, VA) :: rest) = (margs_lf lf ++ margs l ++ margs r) ++ fut rest) as Ef.
+      { destruct lf as [[k v]|]; cbn [lfatom app fut fut_atom fst snd margs_lf]; [|reflexivity].
+        unfold margs at 1. cbn. reflexivity. }
+      rewrite Ef. assert (margs_lf lf ++ margs l ++ margs r <> []) as Hne.
+      { intros E. apply (Hly (Node lbl lf l r) (or_introl eq_refl)).
+        rewrite <- margs_entries, margs_node, E. reflexivity. }
+      split; [rewrite (bumpm_app _ (margs_lf lf ++ margs l ++ margs r) (fut rest) Hne); reflexivity|]. split; [|reflexivity].
+      intros E. apply app_eq_nil in E as [E _]. contradiction.
+    + rewrite fut_push_child. cbn [fut fut_atom fst snd]. split; [now rewrite app_assoc|discriminate].
+    + rewrite fut_push_child. cbn [fut fut_atom fst snd]. split; [reflexivity|discriminate].
+    + split; [reflexivity|discriminate].
+Qed.
+
+(* ---------- termination measure ---------- *)
+Fixpoint pops (t : tree) : nat :=
+  match t with
+  | Nil => 0
+  | Leaf _ _ => 1
+  | Node _ lf l r => 4 + length (lf_contents lf) + pops l + pops r
+  end.
+Definition mu_atom (a : atom) : nat :=
+  match snd a with
+  | VB => pops (fst a)
+  | VA => match fst a with Node _ _ l r => 3 + pops l + pops r | _ => 1 end
+  | VL => match fst a with Node _ _ l r => 2 + pops r | _ => 1 end
+  | VR => 1
+  end.
+Fixpoint smu (stk : list atom) : nat := match stk with [] => 0 | a :: r => mu_atom a + smu r end.
+
+Lemma smu_push_child c stk : smu (push_child c stk) = pops c + smu stk.
+Proof. destruct c; reflexivity. Qed.
+
+Lemma smu_step a rest : fst a <> Nil -> S (smu (fst (mstep a rest))) = smu (a :: rest).
+Proof.
+  destruct a as [nd st]. cbn [fst]. intros Hn. unfold mstep. cbn [fst snd].
+  destruct nd as [|k v|lbl lf l r]; [congruence| |].
+  - cbn [fst smu]. unfold mu_atom. cbn [fst snd]. destruct st; reflexivity.
+  - destruct st; cbn [fst].
+    + assert (smu (lfatom lf ++ (Node lbl lf l r, VA) :: rest) = length (lf_contents lf) + (3 + pops l + pops r) + smu rest) as ->
+        by (destruct lf as [[k v]|]; reflexivity).
+      cbn [smu]. unfold mu_atom. cbn [fst snd pops]. lia.
+    + rewrite smu_push_child. cbn [smu]. unfold mu_atom. cbn [fst snd]. lia.
+    + rewrite smu_push_child. cbn [smu]. unfold mu_atom. cbn [fst snd]. lia.
+    + cbn [smu]. unfold mu_atom. cbn [fst snd]. lia.
+Qed.
+
+(* ---------- configurations ---------- *)
+(* (pending, builder, lastIsLeaf, visited (reversed), "the last pop was a leaf") *)
+Definition cfg := (list atom * pbuilder * bool * list entry * bool)%type.
+Definition cstep (a : atom) (rest : list atom) (pb : pbuilder) (ll : bool) (vis : list entry) : cfg :=
+  match mstep a rest with
+  | (stk', EvLeaf e) => (stk', include (fst a) pb, true, e :: vis, true)
+  | (stk', EvOpen) => (stk', include (fst a) pb, false, vis, false)
+  | (stk', EvOther) => (stk', include (fst a) pb, ll, vis, false)
+  end.
+Inductive reach : cfg -> cfg -> Prop :=
+| reach_refl c : reach c c
+| reach_step a rest pb ll vis jl c' :
+    reach (cstep a rest pb ll vis) c' -> reach (a :: rest, pb, ll, vis, jl) c'.
+
+Lemma reach_inv (P : cfg -> Prop) :
+  (forall a rest pb ll vis jl, P (a :: rest, pb, ll, vis, jl) -> P (cstep a rest pb ll vis)) ->
+  forall c c', reach c c' -> P c -> P c'.
+Proof. intros Hs c c' Hr. induction Hr; eauto. Qed.
+
+(* what the loop visits, by the break rule *)
+Definition visits (size : N) (stk : list atom) (pb : pbuilder) (ll : bool) : list entry :=
+  if ll then tm size (psize pb) (fut stk)
+  else match fut stk with [] => [] | (e, m) :: r => e :: tm size (psize pb + m) r end.
+
+Lemma loop_run size fuel : forall stk pb ll vis jl,
+  good stk pb -> smu stk < fuel ->
+  (ll = true -> (size <= psize pb)%N -> jl = true) ->
+  exists stk' pb' ll' jl',
+    nc_loop fuel size stk pb ll vis = Some (stk', pb', rev vis ++ visits size stk pb ll) /\
+    reach (stk, pb, ll, vis, jl) (stk', pb', ll', rev (rev vis ++ visits size stk pb ll), jl') /\
+    (stk' = [] \/ jl' = true).
+Proof.
+  induction fuel as [|fuel IH]; intros stk pb ll vis jl Hg Hm Hj; [lia|].
+  destruct stk as [|a rest].
+  - exists [], pb, ll, jl. cbn [nc_loop]. unfold visits. cbn [fut]. destruct ll; cbn [tm]; rewrite app_nil_r, rev_involutive;
+      (split; [reflexivity|split; [apply reach_refl|now left]]).
+  - rewrite nc_loop_unfold.
+    destruct ((size <=? psize pb)%N && ll) eqn:Eb.
+    + apply andb_true_iff in Eb as [Es ->]. apply N.leb_le in Es.
+      exists (a :: rest), pb, true, jl. unfold visits.
+      assert (tm size (psize pb) (fut (a :: rest)) = []) as ->.
+      { destruct (fut (a :: rest)) as [|[e m] r]; [reflexivity|]. cbn [tm].
+        destruct (N.ltb_spec (psize pb) size); [lia|reflexivity]. }
+      rewrite app_nil_r, rev_involutive. split; [reflexivity|]. split; [apply reach_refl|right; auto].
+    + destruct (good_step a rest pb Hg) as (Hg' & Hinc & Hsz).
+      pose proof (fut_step a rest pb Hg) as Hf.
+      assert (fst a <> Nil) as Hnn by (destruct Hg as (_ & _ & Hst); destruct a as [nd st]; apply (Hst nd st); now left).
+      pose proof (smu_step a rest Hnn) as Hmu.
+      destruct (mstep a rest) as [stk1 e1] eqn:Ems. cbn [fst snd] in *.
+      assert (smu stk1 < fuel) as Hm1 by (unfold atom in *; lia).
+      destruct e1 as [e| |].
+      * (* a leaf *)
+        destruct Hf as [Hf Hvb]. rewrite Hvb in Hsz.
+        destruct (IH stk1 (include (fst a) pb) true (e :: vis) true Hg' Hm1 ltac:(auto))
+          as (stk' & pb' & ll' & jl' & E & R & F).
+        exists stk', pb', ll', jl'.
+        assert (visits size (a :: rest) pb ll = e :: visits size stk1 (include (fst a) pb) true) as Ev.
+        { unfold visits. rewrite Hf, Hsz. destruct ll; [|reflexivity].
+          cbn [tm]. apply andb_false_iff in Eb as [Eb|Eb]; [|discriminate]. apply N.leb_gt in Eb.
+          destruct (N.ltb_spec (psize pb) size); [reflexivity|lia]. }
+        rewrite Ev. cbn [rev] in E, R. rewrite <- app_assoc in E, R. cbn [app] in E, R.
+        split; [exact E|]. split; [|exact F]. apply reach_step. unfold cstep. rewrite Ems. exact R.
+      * (* an internal node is opened *)
+        destruct Hf as (Hf & Hne & Hvb). rewrite Hvb in Hsz.
+        destruct (IH stk1 (include (fst a) pb) false vis false Hg' Hm1 ltac:(discriminate))
+          as (stk' & pb' & ll' & jl' & E & R & F).
+        exists stk', pb', ll', jl'.
+        assert (visits size (a :: rest) pb ll = visits size stk1 (include (fst a) pb) false) as Ev.
+        { unfold visits. rewrite Hf, Hsz. destruct (fut stk1) as [|[e m] r]; [congruence|]. cbn [bumpm].
+          destruct ll.
+          - cbn [tm]. apply andb_false_iff in Eb as [Eb|Eb]; [|discriminate]. apply N.leb_gt in Eb.
+            destruct (N.ltb_spec (psize pb) size); [|lia]. f_equal. f_equal. lia.
+          - f_equal. f_equal. lia. }
+        rewrite Ev. split; [exact E|]. split; [|exact F]. apply reach_step. unfold cstep. rewrite Ems. exact R.
+      * (* a state transition *)
+        destruct Hf as [Hf Hnvb].
+        assert (psize (include (fst a) pb) = psize pb) as Hsz' by (rewrite Hsz; destruct (snd a); try congruence; lia).
+        assert (ll = true -> (size <= psize (include (fst a) pb))%N -> false = true) as Hj'.
+        { intros -> Hle. rewrite Hsz' in Hle. apply andb_false_iff in Eb as [Eb|Eb]; [|discriminate].
+          apply N.leb_gt in Eb. lia. }
+        destruct (IH stk1 (include (fst a) pb) ll vis false Hg' Hm1 Hj') as (stk' & pb' & ll' & jl' & E & R & F).
+        exists stk', pb', ll', jl'.
+        assert (visits size (a :: rest) pb ll = visits size stk1 (include (fst a) pb) ll) as Ev
+          by (unfold visits; now rewrite Hf, Hsz').
+        rewrite Ev. split; [exact E|]. split; [|exact F]. apply reach_step. unfold cstep. rewrite Ems. exact R.
+Qed.
+
+(* ------------------------------------------------------------------ *)
+(* 3. stacks as positions: (subtree, number of its keys already visited) *)
+(* ------------------------------------------------------------------ *)
+Definition tot (s : tree) : nat := length (contents s).
+Definition nlf (lf : option entry) : nat := length (lf_contents lf).
+
+Inductive lrep : tree -> nat -> list atom -> Prop :=
+| lr_fresh s : s <> Nil -> lrep s 0 [(s, VB)]
+| lr_done s : lrep s (tot s) []
+| lr_lfpend lbl k v l r :
+    lrep (Node lbl (Some (k, v)) l r) 0 [(Leaf k v, VB); (Node lbl (Some (k, v)) l r, VA)]
+| lr_at lbl lf l r : lrep (Node lbl lf l r) (nlf lf) [(Node lbl lf l r, VA)]
+| lr_left lbl lf l r dl stkl :
+    lrep l dl stkl -> lrep (Node lbl lf l r) (nlf lf + dl) (stkl ++ [(Node lbl lf l r, VL)])
+| lr_right lbl lf l r dr stkr :
+    lrep r dr stkr -> lrep (Node lbl lf l r) (nlf lf + tot l + dr) (stkr ++ [(Node lbl lf l r, VR)]).
+
+Lemma tot_node lbl lf l r : tot (Node lbl lf l r) = nlf lf + tot l + tot r.
+Proof. unfold tot, nlf. cbn [contents]. rewrite !app_length. lia. Qed.
+
+Lemma lrep_le s d stk : lrep s d stk -> d <= tot s.
+Proof.
+  induction 1; try rewrite tot_node; try lia.
+Qed.
+
+Lemma lrep_nil s d : lrep s d [] -> d = tot s.
+Proof.
+  intros Hl. remember [] as stk eqn:E. destruct Hl; try discriminate; try reflexivity;
+    destruct stkl + destruct stkr; discriminate.
+Qed.
+
+Lemma push_child_app c a b : push_child c (a ++ b) = push_child c a ++ b.
+Proof. destruct c; reflexivity. Qed.
+
+Lemma mstep_app a r c : mstep a (r ++ c) = (fst (mstep a r) ++ c, snd (mstep a r)).
+Proof.
+  unfold mstep. destruct (fst a) as [|k v|lbl lf l rr]; try reflexivity.
+  destruct (snd a); cbn [fst snd]; try reflexivity.
+  - now rewrite <- app_assoc.
+  - now rewrite <- push_child_app.
+  - now rewrite <- push_child_app.
+Qed.
+
+Definition leafev (e : ev) : nat := match e with EvLeaf _ => 1 | _ => 0 end.
+
+Lemma lrep_step s d a rest :
+  lrep s d (a :: rest) -> lrep s (d + leafev (snd (mstep a rest))) (fst (mstep a rest)).
+Proof.
+  intros Hl. remember (a :: rest) as stk eqn:E. revert a rest E.
+  induction Hl as [s Hn|s|lbl k v l r|lbl lf l r|lbl lf l r dl stkl Hl IH|lbl lf l r dr stkr Hl IH]; intros a rest E.
+  - injection E as <- <-. unfold mstep. cbn [fst snd]. destruct s as [|k v|lbl lf l r]; [congruence| |].
+    + cbn. apply (lr_done (Leaf k v)).
+    + cbn [fst snd leafev]. rewrite Nat.add_0_r. destruct lf as [[k v]|]; cbn [lfatom app].
+      * apply lr_lfpend.
+      * apply (lr_at lbl None l r).
+  - discriminate.
+  - injection E as <- <-. unfold mstep. cbn. apply (lr_at lbl (Some (k, v)) l r).
+  - injection E as <- <-. unfold mstep. cbn [fst snd leafev]. rewrite Nat.add_0_r.
+    replace (nlf lf) with (nlf lf + 0) by lia. destruct l as [|kl vl|lb2 lf2 l2 r2]; cbn [push_child].
+    + apply (lr_left lbl lf Nil r 0 []). apply (lr_done Nil).
+    + apply (lr_left lbl lf _ r 0 [_]). apply lr_fresh. discriminate.
+    + apply (lr_left lbl lf _ r 0 [_]). apply lr_fresh. discriminate.
+  - destruct stkl as [|a0 rest0].
+    + apply lrep_nil in Hl. subst dl. cbn [app] in E. injection E as <- <-.
+      unfold mstep. cbn [fst snd leafev]. rewrite Nat.add_0_r.
+      replace (nlf lf + tot l) with (nlf lf + tot l + 0) by lia.
+      destruct r as [|kr vr|lb2 lf2 l2 r2]; cbn [push_child].
+      * apply (lr_right lbl lf l Nil 0 []). apply (lr_done Nil).
+      * apply (lr_right lbl lf l _ 0 [_]). apply lr_fresh. discriminate.
+      * apply (lr_right lbl lf l _ 0 [_]). apply lr_fresh. discriminate.
+    + cbn [app] in E. injection E as <- <-. rewrite mstep_app. cbn [fst snd].
+      rewrite <- Nat.add_assoc. apply lr_left. apply IH. reflexivity.
+  - destruct stkr as [|a0 rest0].
+    + apply lrep_nil in Hl. subst dr. cbn [app] in E. injection E as <- <-.
+      unfold mstep. cbn [fst snd leafev]. rewrite Nat.add_0_r. rewrite <- (tot_node lbl lf l r). apply lr_done.
+    + cbn [app] in E. injection E as <- <-. rewrite mstep_app. cbn [fst snd].
+      rewrite <- Nat.add_assoc. apply lr_right. apply IH. reflexivity.
+Qed.
+
+(* right after a leaf pop *)
+Inductive arep : tree -> nat -> list atom -> Prop :=
+| ar_leaf k v : arep (Leaf k v) 1 []
+| ar_lf lbl k v l r : arep (Node lbl (Some (k, v)) l r) 1 [(Node lbl (Some (k, v)) l r, VA)]
+| ar_left lbl lf l r dl stkl :
+    arep l dl stkl -> arep (Node lbl lf l r) (nlf lf + dl) (stkl ++ [(Node lbl lf l r, VL)])
+| ar_right lbl lf l r dr stkr :
+    arep r dr stkr -> arep (Node lbl lf l r) (nlf lf + tot l + dr) (stkr ++ [(Node lbl lf l r, VR)]).
+
+Lemma lrep_leaf_arep s d a rest e :
+  lrep s d (a :: rest) -> snd (mstep a rest) = EvLeaf e -> arep s (d + 1) (fst (mstep a rest)).
+Proof.
+  intros Hl. remember (a :: rest) as stk eqn:E. revert a rest E.
+  induction Hl as [s Hn|s|lbl k v l r|lbl lf l r|lbl lf l r dl stkl Hl IH|lbl lf l r dr stkr Hl IH]; intros a rest E Hev.
+  - injection E as <- <-. unfold mstep in *. cbn [fst snd] in *. destruct s as [|k v|lbl lf l r]; [congruence| |].
+    + cbn. apply ar_leaf.
+    + discriminate.
+  - discriminate.
+  - injection E as <- <-. unfold mstep. cbn. apply ar_lf.
+  - injection E as <- <-. unfold mstep in Hev. cbn in Hev. discriminate.
+  - destruct stkl as [|a0 rest0].
+    + cbn [app] in E. injection E as <- <-. unfold mstep in Hev. cbn in Hev. discriminate.
+    + cbn [app] in E. injection E as <- <-. rewrite mstep_app in *. cbn [fst snd] in *.
+      rewrite <- Nat.add_assoc. apply ar_left. eapply IH; eauto.
+  - destruct stkr as [|a0 rest0].
+    + cbn [app] in E. injection E as <- <-. unfold mstep in Hev. cbn in Hev. discriminate.
+    + cbn [app] in E. injection E as <- <-. rewrite mstep_app in *. cbn [fst snd] in *.
+      rewrite <- Nat.add_assoc. apply ar_right. eapply IH; eauto.
+Qed.
+
+Lemma arep_bounds s d stk : arep s d stk -> 1 <= d <= tot s.
+Proof.
+  induction 1; try rewrite tot_node; unfold tot, nlf in *; cbn [contents lf_contents length] in *; try lia.
+Qed.
+
+(* the canonical (trimmed) stack of a position with at least one key visited *)
+Fixpoint canon (s : tree) (d : nat) : list atom :=
+  match s with
+  | Node lbl lf l r =>
+      if d <=? nlf lf then match l, r with Nil, Nil => [] | _, _ => [(s, VA)] end
+      else if d - nlf lf <? tot l then canon l (d - nlf lf) ++ [(s, VL)]
+      else if d - nlf lf =? tot l then match r with Nil => [] | _ => [(s, VL)] end
+      else if d - nlf lf - tot l <? tot r then canon r (d - nlf lf - tot l) ++ [(s, VR)]
+      else []
+  | _ => []
+  end.
+
+Lemma leafy_tot s : leafy s -> s <> Nil -> 1 <= tot s.
+Proof.
+  intros L Hn. specialize (L s (nodes_self s Hn)). unfold tot. destruct (contents s); [congruence|cbn; lia].
+Qed.
+
+Lemma canon_done s : forall d, tot s <= d -> 1 <= d -> leafy s -> canon s d = [].
+Proof.
+  induction s as [|k v|lbl lf l IHl r IHr]; intros d Hd H1 L; cbn [canon]; try reflexivity.
+  rewrite tot_node in Hd.
+  destruct (Nat.leb_spec d (nlf lf)).
+  - assert (tot l = 0 /\ tot r = 0) as [El Er] by lia.
+    destruct l; [|pose proof (leafy_tot _ (leafy_l _ _ _ _ L) ltac:(discriminate)); lia..].
+    destruct r; [reflexivity|pose proof (leafy_tot _ (leafy_r _ _ _ _ L) ltac:(discriminate)); lia..].
+  - destruct (Nat.ltb_spec (d - nlf lf) (tot l)); [lia|].
+    destruct (Nat.eqb_spec (d - nlf lf) (tot l)).
+    + destruct r; [reflexivity|pose proof (leafy_tot _ (leafy_r _ _ _ _ L) ltac:(discriminate)); lia..].
+    + destruct (Nat.ltb_spec (d - nlf lf - tot l) (tot r)); [lia|reflexivity].
+Qed.
+
+Lemma canon_nonempty s : forall d, 1 <= d -> d < tot s -> leafy s -> canon s d <> [].
+Proof.
+  induction s as [|k v|lbl lf l IHl r IHr]; intros d H1 Hd L; [unfold tot in Hd; cbn in Hd; lia..|].
+  rewrite tot_node in Hd. cbn [canon].
+  destruct (Nat.leb_spec d (nlf lf)).
+  - destruct l, r; try discriminate. unfold tot, nlf in *. destruct lf as [[? ?]|]; cbn [contents lf_contents length] in *; lia.
+  - destruct (Nat.ltb_spec (d - nlf lf) (tot l)); [intros E; apply app_eq_nil in E as [_ E]; discriminate|].
+    destruct (Nat.eqb_spec (d - nlf lf) (tot l)).
+    + destruct r; try discriminate. unfold tot, nlf in *. cbn [contents length] in *. lia.
+    + destruct (Nat.ltb_spec (d - nlf lf - tot l) (tot r)); [|lia].
+      intros E; apply app_eq_nil in E as [_ E]; discriminate.
+Qed.
+
+Lemma trim_app a : forall b, trim (a ++ b) = match trim a with [] => trim b | x => x ++ b end.
+Proof.
+  induction a as [|[nd st] a IH]; intros b; cbn [app trim]; [destruct (trim b); reflexivity|].
+  destruct nd as [|k v|lbl lf l r]; [apply IH|reflexivity|].
+  destruct st; try reflexivity; try apply IH.
+  - destruct l, r; try reflexivity. apply IH.
+  - destruct r; try reflexivity. apply IH.
+Qed.
+
+Lemma trim_arep s d stk : arep s d stk -> leafy s -> trim stk = canon s d.
+Proof.
+  induction 1 as [k v|lbl k v l r|lbl lf l r dl stkl Ha IH|lbl lf l r dr stkr Ha IH]; intros L.
+  - reflexivity.
+  - cbn [trim canon nlf lf_contents length]. destruct l, r; reflexivity.
+  - pose proof (arep_bounds _ _ _ Ha) as [B1 B2]. specialize (IH (leafy_l _ _ _ _ L)).
+    rewrite trim_app, IH. cbn [canon].
+    destruct (Nat.leb_spec (nlf lf + dl) (nlf lf)); [lia|].
+    replace (nlf lf + dl - nlf lf) with dl by lia.
+    destruct (Nat.ltb_spec dl (tot l)).
+    + pose proof (canon_nonempty l dl B1 ltac:(assumption) (leafy_l _ _ _ _ L)). destruct (canon l dl); [congruence|reflexivity].
+    + assert (dl = tot l) as -> by lia. rewrite Nat.eqb_refl.
+      rewrite (canon_done l (tot l)) by (try lia; eapply leafy_l; eauto). cbn [trim]. destruct r; reflexivity.
+  - pose proof (arep_bounds _ _ _ Ha) as [B1 B2]. specialize (IH (leafy_r _ _ _ _ L)).
+    rewrite trim_app, IH. cbn [canon].
+    destruct (Nat.leb_spec (nlf lf + tot l + dr) (nlf lf)); [lia|].
+    destruct (Nat.ltb_spec (nlf lf + tot l + dr - nlf lf) (tot l)); [lia|].
+    destruct (Nat.eqb_spec (nlf lf + tot l + dr - nlf lf) (tot l)); [lia|].
+    replace (nlf lf + tot l + dr - nlf lf - tot l) with dr by lia.
+    destruct (Nat.ltb_spec dr (tot r)).
+    + pose proof (canon_nonempty r dr B1 ltac:(assumption) (leafy_r _ _ _ _ L)). destruct (canon r dr); [congruence|reflexivity].
+    + rewrite (canon_done r dr) by (try lia; eapply leafy_r; eauto). reflexivity.
+Qed.
+
+(* ------------------------------------------------------------------ *)
+(* 4. the canonical stack against the annotated key list of the model   *)
+(* ------------------------------------------------------------------ *)
+Definition opened_atom (a : atom) : N := match snd a with VB => 0 | _ => node_size (fst a) end.
+Fixpoint opened (stk : list atom) : N := match stk with [] => 0 | a :: r => opened_atom a + opened r end.
+
+Lemma opened_app a b : opened (a ++ b) = (opened a + opened b)%N.
+Proof. induction a as [|x a IH]; cbn [opened app]; [lia|]. rewrite IH. lia. Qed.
+Lemma fut_app a b : fut (a ++ b) = fut a ++ fut b.
+Proof. induction a as [|x a IH]; cbn [fut app]; [reflexivity|]. now rewrite IH, app_assoc. Qed.
+
+Lemma annot_first u : forall B a rest, annot B u = a :: rest -> afull a = (B + amarg a)%N.
+Proof.
+  induction u as [|k v|lbl lf l IHl r IHr]; intros B a rest E; cbn [annot] in E.
+  - discriminate.
+  - injection E as <- <-. reflexivity.
+  - set (c := node_cost lbl lf) in *.
+    destruct (annot_lf (B + c) lf ++ annot (B + c) l ++ annot (B + c) r) as [|[[e f] m] rest0] eqn:El; [discriminate|].
+    cbn [bump] in E. injection E as <- <-. unfold afull, amarg. cbn [fst snd].
+    destruct lf as [[k v]|]; cbn [annot_lf app] in El.
+    + injection El as <- <- <- _. lia.
+    + destruct (annot (B + c) l) as [|a1 r1] eqn:E1; cbn [app] in El.
+      * specialize (IHr _ _ _ El). unfold afull, amarg in IHr. cbn [fst snd] in IHr. lia.
+      * injection El as -> _. specialize (IHl _ _ _ E1). unfold afull, amarg in IHl. cbn [fst snd] in IHl. lia.
+Qed.
+
+Lemma skipn_bump c l d : 1 <= d -> skipn d (bump c l) = skipn d l.
+Proof. destruct d; [lia|]. destruct l as [|[[e f] m] r]; reflexivity. Qed.
+
+Lemma annot_lf_length A lf : length (annot_lf A lf) = nlf lf.
+Proof. destruct lf as [[k v]|]; reflexivity. Qed.
+
+Lemma canon_fut s : forall d A, 1 <= d -> d < tot s -> leafy s ->
+  match skipn d (annot A s) with
+  | [] => False
+  | a0 :: r => exists m, fut (canon s d) = (aentry a0, m) :: map toem r /\
+                         (A + opened (canon s d) + m = afull a0)%N
+  end.
+Proof.
+  induction s as [|k v|lbl lf l IHl r IHr]; intros d A H1 Hd L; [unfold tot in Hd; cbn in Hd; lia..|].
+  rewrite tot_node in Hd. cbn [annot canon]. set (c := node_cost lbl lf). set (A' := (A + c)%N).
+  rewrite skipn_bump by assumption.
+  pose proof (annot_lf_length A' lf) as Ll1. pose proof (annot_length A' l) as Ll2. fold (tot l) in Ll2.
+  pose proof (annot_length A' r) as Ll3. fold (tot r) in Ll3.
+  assert (opened_atom (Node lbl lf l r, VA) = c /\ opened_atom (Node lbl lf l r, VL) = c /\
+          opened_atom (Node lbl lf l r, VR) = c) as (Oa & Ol & Or) by (repeat split; reflexivity).
+  destruct (Nat.leb_spec d (nlf lf)); cbv iota.
+  - (* only the node's own leaf visited *)
+    assert (d = nlf lf /\ nlf lf = 1) as [-> En] by (unfold nlf in *; destruct lf; cbn in *; lia).
+    rewrite skipn_app, skipn_all2 by lia. rewrite Ll1, Nat.sub_diag. cbn [app skipn].
+    assert (l = Nil -> r = Nil -> False) as Hlr by (intros -> ->; change (tot Nil) with 0 in Hd; lia).
+    destruct (annot A' l ++ annot A' r) as [|a0 rest] eqn:E.
+    + apply (f_equal (@length aent)) in E. rewrite app_length in E. cbn in E. lia.
+    + exists (amarg a0).
+      match goal with |- context [fut ?X] => assert (X = [(Node lbl lf l r, VA)]) as canon_case
+        by (destruct l, r; try reflexivity; exfalso; auto) end.
+      rewrite canon_case. cbn [fut fut_atom fst snd opened]. rewrite Oa, app_nil_r, <- !(margs_any _ A'), <- map_app, E.
+      split; [destruct a0 as [[e f] m]; reflexivity|].
+      assert (afull a0 = (A' + amarg a0)%N) as ->.
+      { destruct (annot A' l) as [|a1 r1] eqn:E1; cbn [app] in E.
+        - eapply annot_first; eauto.
+        - injection E as -> _. eapply annot_first; eauto. }
+      unfold A'. lia.
+  - rewrite skipn_app, skipn_all2 by lia. rewrite Ll1. cbn [app]. rewrite skipn_app, Ll2.
+    destruct (Nat.ltb_spec (d - nlf lf) (tot l)); cbv iota.
+    + (* inside the left subtree *)
+      specialize (IHl (d - nlf lf) A' ltac:(lia) ltac:(lia) (leafy_l _ _ _ _ L)).
+      destruct (skipn (d - nlf lf) (annot A' l)) as [|a0 r0]; [contradiction|].
+      destruct IHl as (m & Ef & Em). replace (d - nlf lf - tot l) with 0 by lia. cbn [skipn app].
+      exists m. rewrite fut_app, Ef, opened_app. cbn [fut fut_atom fst snd opened app]. rewrite Ol.
+      split; [rewrite app_nil_r, map_app, margs_any; reflexivity|]. unfold A' in Em. lia.
+    + rewrite (skipn_all2 (annot A' l)) by lia. cbn [app].
+      destruct (Nat.eqb_spec (d - nlf lf) (tot l)) as [Ee|Ene]; cbv iota.
+      * (* left subtree complete, right untouched *)
+        rewrite Ee, Nat.sub_diag. cbn [skipn].
+        assert (r <> Nil) as Hr by (intros ->; change (tot Nil) with 0 in Hd; lia).
+        destruct (annot A' r) as [|a0 rest] eqn:E; [cbn in Ll3; lia|].
+        exists (amarg a0).
+        match goal with |- context [fut ?X] => assert (X = [(Node lbl lf l r, VL)]) as Ec
+          by (destruct r; congruence) end.
+        rewrite Ec. cbn [fut fut_atom fst snd opened]. rewrite Ol, app_nil_r, <- (margs_any _ A'), E. split; [destruct a0 as [[e f] m]; reflexivity|].
+        rewrite (annot_first _ _ _ _ E). unfold A'. lia.
+      * (* inside the right subtree *)
+        destruct (Nat.ltb_spec (d - nlf lf - tot l) (tot r)); [|lia]. cbv iota.
+        specialize (IHr (d - nlf lf - tot l) A' ltac:(lia) ltac:(lia) (leafy_r _ _ _ _ L)).
+        destruct (skipn (d - nlf lf - tot l) (annot A' r)) as [|a0 r0]; [contradiction|].
+        destruct IHr as (m & Ef & Em). exists m. rewrite fut_app, Ef, opened_app.
+        cbn [fut fut_atom fst snd opened app]. rewrite Or.
+        split; [rewrite app_nil_r; reflexivity|]. unfold A' in Em. lia.
+Qed.
+
+(* the canonical stack is a stack of the position, holds open internal nodes only *)
+Lemma canon_lrep s : forall d, 1 <= d -> d <= tot s -> leafy s -> lrep s d (canon s d).
+Proof.
+  induction s as [|k v|lbl lf l IHl r IHr]; intros d H1 Hd L.
+  - unfold tot in Hd. cbn in Hd. lia.
+  - unfold tot in Hd. cbn in Hd. assert (d = 1) as -> by lia. apply (lr_done (Leaf k v)).
+  - rewrite tot_node in Hd. cbn [canon].
+    destruct (Nat.leb_spec d (nlf lf)).
+    + assert (d = nlf lf) as -> by (unfold nlf in *; destruct lf; cbn in *; lia).
+      destruct l, r; try apply lr_at.
+      replace (nlf lf) with (tot (Node lbl lf Nil Nil)) by (rewrite tot_node; unfold tot; cbn; lia). apply lr_done.
+    + destruct (Nat.ltb_spec (d - nlf lf) (tot l)).
+      * replace d with (nlf lf + (d - nlf lf)) at 1 by lia. apply lr_left. apply IHl; try lia. eapply leafy_l; eauto.
+      * destruct (Nat.eqb_spec (d - nlf lf) (tot l)) as [Ee|Ene].
+        -- replace d with (nlf lf + tot l) by lia. destruct r.
+           ++ replace (nlf lf + tot l) with (tot (Node lbl lf l Nil)) by (rewrite tot_node; unfold tot; cbn; lia).
+              apply lr_done.
+           ++ apply (lr_left lbl lf l _ (tot l) []). apply lr_done.
+           ++ apply (lr_left lbl lf l _ (tot l) []). apply lr_done.
+        -- destruct (Nat.ltb_spec (d - nlf lf - tot l) (tot r)).
+           ++ replace d with (nlf lf + tot l + (d - nlf lf - tot l)) at 1 by lia. apply lr_right.
+              apply IHr; try lia. eapply leafy_r; eauto.
+           ++ replace d with (tot (Node lbl lf l r)) by (rewrite tot_node; lia). apply lr_done.
+Qed.
+
+Lemma canon_atoms s : forall d n st, In (n, st) (canon s d) ->
+  st <> VB /\ In n (nodes s) /\ ~ is_leaf n /\ n <> Nil.
+Proof.
+  induction s as [|k v|lbl lf l IHl r IHr]; intros d n st Hin; cbn [canon] in Hin; try destruct Hin.
+  assert (forall st0, st0 <> VB -> (n, st) = (Node lbl lf l r, st0) ->
+          st <> VB /\ In n (nodes (Node lbl lf l r)) /\ ~ is_leaf n /\ n <> Nil) as Hself.
+  { intros st0 Hs [= -> ->]. repeat split; [assumption|cbn; auto|intros (k & v & E); discriminate|discriminate]. }
+  destruct (d <=? nlf lf).
+  - assert (In (n, st) [(Node lbl lf l r, VA)]) as Hin' by (destruct l, r; (exact Hin || destruct Hin)).
+    destruct Hin' as [E|[]]. symmetry in E. apply (Hself VA); [discriminate|assumption].
+  - destruct (d - nlf lf <? tot l).
+    + rewrite in_app_iff in Hin. destruct Hin as [Hin|[E|[]]].
+      * destruct (IHl _ _ _ Hin) as (? & ? & ? & ?). repeat split; auto. cbn [nodes]. right. rewrite !in_app_iff. auto.
+      * symmetry in E. apply (Hself VL); [discriminate|assumption].
+    + destruct (d - nlf lf =? tot l).
+      * assert (In (n, st) [(Node lbl lf l r, VL)]) as Hin' by (destruct r; (exact Hin || destruct Hin)).
+        destruct Hin' as [E|[]]. symmetry in E. apply (Hself VL); [discriminate|assumption].
+      * destruct (d - nlf lf - tot l <? tot r); [|destruct Hin].
+        rewrite in_app_iff in Hin. destruct Hin as [Hin|[E|[]]].
+        -- destruct (IHr _ _ _ Hin) as (? & ? & ? & ?). repeat split; auto. cbn [nodes]. right. rewrite !in_app_iff. auto.
+        -- symmetry in E. apply (Hself VR); [discriminate|assumption].
+Qed.
+
+(* ------------------------------------------------------------------ *)
+(* 4b. what the builder has included: exactly the nodes above visited keys *)
+(* ------------------------------------------------------------------ *)
+Lemma pbuild_eq H S incl0 t :
+  (forall n, In n (nodes t) -> (In n incl0 <-> selected S n)) ->
+  pbuild H incl0 t = chunk_of H S t.
+Proof.
+  induction t as [|k v|lbl lf l IHl r IHr]; intros Hn.
+  - reflexivity.
+  - cbn [pbuild]. unfold chunk_of. cbn [prune_opt].
+    specialize (Hn (Leaf k v) (or_introl eq_refl)).
+    destruct (existsb (tree_eqb (Leaf k v)) incl0) eqn:E.
+    + apply mem_tree_in in E. apply Hn in E as (k' & v' & [[= <- <-]|[]] & Hs). now rewrite Hs.
+    + destruct (S k) eqn:Es; [|reflexivity]. exfalso.
+      assert (In (Leaf k v) incl0) as Hi by (apply Hn; exists k, v; cbn; auto).
+      apply mem_tree_in in Hi. congruence.
+  - cbn [pbuild]. pose proof (Hn _ (or_introl eq_refl)) as Ht.
+    assert (forall n, In n (nodes l) -> In n incl0 <-> selected S n) as Hl
+      by (intros n Hi; apply Hn; cbn [nodes]; right; rewrite !in_app_iff; auto).
+    assert (forall n, In n (nodes r) -> In n incl0 <-> selected S n) as Hr
+      by (intros n Hi; apply Hn; cbn [nodes]; right; rewrite !in_app_iff; auto).
+    destruct (existsb (tree_eqb (Node lbl lf l r)) incl0) eqn:E.
+    + apply mem_tree_in in E. apply Ht in E. rewrite (chunk_node H S _ _ _ _ E), IHl, IHr; auto.
+    + unfold chunk_of. rewrite prune_unselected; [reflexivity|]. intros Hs. apply Ht in Hs.
+      apply mem_tree_in in Hs. congruence.
+Qed.
+
+(* the chain of ancestors of a subtree *)
+Inductive achain : tree -> list tree -> tree -> Prop :=
+| ac_here t : achain t [] t
+| ac_l lbl lf l r p s : achain l p s -> achain (Node lbl lf l r) (Node lbl lf l r :: p) s
+| ac_r lbl lf l r p s : achain r p s -> achain (Node lbl lf l r) (Node lbl lf l r :: p) s.
+
+Lemma achain_sub t p s : achain t p s -> sub s t.
+Proof. induction 1; [apply sub_refl|apply sub_l; assumption|apply sub_r; assumption]. Qed.
+
+Lemma achain_snoc t p lbl lf l r :
+  achain t p (Node lbl lf l r) ->
+  achain t (p ++ [Node lbl lf l r]) l /\ achain t (p ++ [Node lbl lf l r]) r.
+Proof.
+  intros Ha. remember (Node lbl lf l r) as s eqn:Es. induction Ha as [t|? ? ? ? p s Ha IH|? ? ? ? p s Ha IH].
+  - subst t. cbn [app]. split; [apply ac_l|apply ac_r]; apply ac_here.
+  - destruct (IH Es) as [I1 I2]. cbn [app]. split; apply ac_l; assumption.
+  - destruct (IH Es) as [I1 I2]. cbn [app]. split; apply ac_r; assumption.
+Qed.
+
+Lemma achain_incl t p s : achain t p s -> incl (p ++ nodes s) (nodes t).
+Proof.
+  induction 1 as [t|lbl lf l r p s Ha IH|lbl lf l r p s Ha IH]; intros n Hn.
+  - exact Hn.
+  - cbn [app] in Hn. destruct Hn as [<-|Hn]; [cbn; auto|]. cbn [nodes]. right. rewrite !in_app_iff. auto.
+  - cbn [app] in Hn. destruct Hn as [<-|Hn]; [cbn; auto|]. cbn [nodes]. right. rewrite !in_app_iff. auto.
+Qed.
+
+Lemma node_not_in_child q lbl lf l r c :
+  wf_at q c -> (c = l \/ c = r) -> ~ In (Node lbl lf l r) (nodes c).
+Proof.
+  intros W Hc Hin. destruct (nodes_facts _ _ W _ Hin) as (_ & _ & _ & L & _). cbn [tnodes] in L.
+  destruct Hc as [->| ->]; lia.
+Qed.
+
+Lemma achain_nodup t p s : achain t p s -> forall q, wf_at q t -> NoDup (p ++ nodes s).
+Proof.
+  induction 1 as [t|lbl lf l r p s Ha IH|lbl lf l r p s Ha IH]; intros q W.
+  - eapply nodes_nodup; eauto.
+  - pose proof W as W0. cbn [wf_at] in W. destruct W as (_ & Wl & Wr & _). cbn [app]. constructor; [|eauto].
+    intros Hin. apply (achain_incl _ _ _ Ha) in Hin. eapply node_not_in_child; [exact Wl|left; reflexivity|exact Hin].
+  - pose proof W as W0. cbn [wf_at] in W. destruct W as (_ & Wl & Wr & _). cbn [app]. constructor; [|eauto].
+    intros Hin. apply (achain_incl _ _ _ Ha) in Hin. eapply node_not_in_child; [exact Wr|right; reflexivity|exact Hin].
+Qed.
+
+Lemma achain_contains t p s : achain t p s -> forall n, In n p -> incl (contents s) (contents n).
+Proof.
+  induction 1 as [t|lbl lf l r p s Ha IH|lbl lf l r p s Ha IH]; intros n Hn; [destruct Hn| |];
+    (destruct Hn as [<-|Hn]; [|auto]); pose proof (sub_contents _ _ (achain_sub _ _ _ Ha)) as Hs;
+    intros e He; cbn [contents]; rewrite !in_app_iff; auto.
+Qed.
+
+(* a node of the tree that holds a key of the subtree lies on the chain or in the subtree *)
+Lemma achain_anc t p s : achain t p s -> forall q, wf_at q t ->
+  forall n e, In n (nodes t) -> In e (contents s) -> In e (contents n) -> In n p \/ In n (nodes s).
+Proof.
+  induction 1 as [t|lbl lf l r p s Ha IH|lbl lf l r p s Ha IH]; intros q W n e Hn Hes Hen; [now right| |].
+  - pose proof (contents_sorted_at _ _ W) as Srt. cbn [contents] in Srt.
+    cbn [wf_at] in W. destruct W as (_ & Wl & Wr & _).
+    assert (In e (contents l)) as Hel by (eapply sub_contents; [eapply achain_sub; eauto|assumption]).
+    cbn [nodes] in Hn. destruct Hn as [<-|Hn]; [left; now left|]. rewrite !in_app_iff in Hn.
+    destruct Hn as [Hn|[Hn|Hn]].
+    + exfalso. apply lfnode_contents in Hn as (k & v & -> & ->). destruct Hen as [<-|[]].
+      eapply (sorted_distinct _ _ Srt (k, v)); [cbn; auto|apply in_or_app; now left].
+    + destruct (IH _ Wl n e Hn Hes Hen); [left; now right|now right].
+    + exfalso. destruct (nodes_facts _ _ Wr _ Hn) as (_ & _ & Ir & _).
+      apply sorted_app_inv in Srt as (_ & Srt & _).
+      eapply (sorted_distinct _ _ Srt e); [exact Hel|apply Ir; exact Hen].
+  - pose proof (contents_sorted_at _ _ W) as Srt. cbn [contents] in Srt.
+    cbn [wf_at] in W. destruct W as (_ & Wl & Wr & _).
+    assert (In e (contents r)) as Her by (eapply sub_contents; [eapply achain_sub; eauto|assumption]).
+    cbn [nodes] in Hn. destruct Hn as [<-|Hn]; [left; now left|]. rewrite !in_app_iff in Hn.
+    destruct Hn as [Hn|[Hn|Hn]].
+    + exfalso. apply lfnode_contents in Hn as (k & v & -> & ->). destruct Hen as [<-|[]].
+      eapply (sorted_distinct _ _ Srt (k, v)); [cbn; auto|apply in_or_app; now right].
+    + exfalso. destruct (nodes_facts _ _ Wl _ Hn) as (_ & _ & Il & _).
+      apply sorted_app_inv in Srt as (_ & Srt & _).
+      eapply (sorted_distinct _ _ Srt e); [apply Il; exact Hen|exact Her].
+    + destruct (IH _ Wr n e Hn Hes Hen); [left; now right|now right].
+Qed.
+
+(* the leaf on top of the stack: its ancestors within the subtree are exactly the open atoms below it *)
+Lemma lrep_top_in s d k v rest : lrep s d ((Leaf k v, VB) :: rest) -> In (k, v) (contents s).
+Proof.
+  intros Hl. remember ((Leaf k v, VB) :: rest) as stk eqn:E. revert rest E.
+  induction Hl as [s Hn|s|lbl k0 v0 l r|lbl lf l r|lbl lf l r dl stkl Hl IH|lbl lf l r dr stkr Hl IH]; intros rest E.
+  - injection E as -> _. cbn. auto.
+  - discriminate.
+  - injection E as <- <- _. cbn. auto.
+  - discriminate.
+  - destruct stkl as [|a0 r0]; [discriminate|]. cbn [app] in E. injection E as -> E.
+    cbn [contents]. rewrite !in_app_iff. right; left. eapply IH; eauto.
+  - destruct stkr as [|a0 r0]; [discriminate|]. cbn [app] in E. injection E as -> E.
+    cbn [contents]. rewrite !in_app_iff. right; right. eapply IH; eauto.
+Qed.
+
+Lemma lrep_top_leaf s d k v rest : lrep s d ((Leaf k v, VB) :: rest) -> forall q, wf_at q s ->
+  forall n, In n (nodes s) -> In (k, v) (contents n) ->
+  n = Leaf k v \/ exists st, In (n, st) rest /\ st <> VB.
+Proof.
+  intros Hl. remember ((Leaf k v, VB) :: rest) as stk eqn:E. revert rest E.
+  induction Hl as [s Hs0|s|lbl k0 v0 l r|lbl lf l r|lbl lf l r dl stkl Hl IH|lbl lf l r dr stkr Hl IH];
+    intros rest E q W n Hn Hc.
+  - injection E as -> _. destruct Hn as [<-|[]]. now left.
+  - discriminate.
+  - injection E as <- <- <-. pose proof (contents_sorted_at _ _ W) as Srt. cbn [contents lf_contents] in Srt.
+    cbn [wf_at] in W. destruct W as (_ & Wl & Wr & _).
+    cbn [nodes lfnode] in Hn. destruct Hn as [<-|[<-|Hn]]; [right; exists VA; split; [now left|discriminate]|now left|].
+    exfalso. cbn [app] in Hn. rewrite in_app_iff in Hn.
+    assert (In (k0, v0) (contents l ++ contents r)) as Hin.
+    { destruct Hn as [Hn|Hn]; [destruct (nodes_facts _ _ Wl _ Hn) as (_ & _ & Il & _)|destruct (nodes_facts _ _ Wr _ Hn) as (_ & _ & Il & _)];
+        apply in_or_app; [left|right]; apply Il; exact Hc. }
+    eapply (sorted_distinct [(k0, v0)] _ Srt (k0, v0)); [cbn; auto|exact Hin].
+  - discriminate.
+  - destruct stkl as [|a0 r0]; [discriminate|]. cbn [app] in E. injection E as -> E. subst rest.
+    pose proof (lrep_top_in _ _ _ _ _ Hl) as Hkl.
+    pose proof (contents_sorted_at _ _ W) as Srt. cbn [contents] in Srt.
+    cbn [wf_at] in W. destruct W as (_ & Wl & Wr & _).
+    cbn [nodes] in Hn. destruct Hn as [<-|Hn].
+    { right. exists VL. split; [apply in_or_app; right; now left|discriminate]. }
+    rewrite !in_app_iff in Hn. destruct Hn as [Hn|[Hn|Hn]].
+    + exfalso. apply lfnode_contents in Hn as (k1 & v1 & -> & ->). destruct Hc as [[= <- <-]|[]].
+      eapply (sorted_distinct _ _ Srt (k1, v1)); [cbn; auto|apply in_or_app; now left].
+    + destruct (IH _ eq_refl _ Wl n Hn Hc) as [?|(st & Hi & Hs)]; [now left|].
+      right. exists st. split; [apply in_or_app; now left|assumption].
+    + exfalso. destruct (nodes_facts _ _ Wr _ Hn) as (_ & _ & Ir & _).
+      apply sorted_app_inv in Srt as (_ & Srt & _).
+      eapply (sorted_distinct _ _ Srt (k, v)); [exact Hkl|apply Ir; exact Hc].
+  - destruct stkr as [|a0 r0]; [discriminate|]. cbn [app] in E. injection E as -> E. subst rest.
+    pose proof (lrep_top_in _ _ _ _ _ Hl) as Hkr.
+    pose proof (contents_sorted_at _ _ W) as Srt. cbn [contents] in Srt.
+    cbn [wf_at] in W. destruct W as (_ & Wl & Wr & _).
+    cbn [nodes] in Hn. destruct Hn as [<-|Hn].
+    { right. exists VR. split; [apply in_or_app; right; now left|discriminate]. }
+    rewrite !in_app_iff in Hn. destruct Hn as [Hn|[Hn|Hn]].
+    + exfalso. apply lfnode_contents in Hn as (k1 & v1 & -> & ->). destruct Hc as [[= <- <-]|[]].
+      eapply (sorted_distinct _ _ Srt (k1, v1)); [cbn; auto|apply in_or_app; now right].
+    + exfalso. destruct (nodes_facts _ _ Wl _ Hn) as (_ & _ & Il & _).
+      apply sorted_app_inv in Srt as (_ & Srt & _).
+      eapply (sorted_distinct _ _ Srt (k, v)); [apply Il; exact Hc|exact Hkr].
+    + destruct (IH _ eq_refl _ Wr n Hn Hc) as [?|(st & Hi & Hs)]; [now left|].
+      right. exists st. split; [apply in_or_app; now left|assumption].
+Qed.
+
+(* ------------------------------------------------------------------ *)
+(* 5. one nextChunk                                                     *)
+(* ------------------------------------------------------------------ *)
+Definition sn_atom (a : atom) : list tree := match snd a with VB => [] | _ => [fst a] end.
+Fixpoint sn (stk : list atom) : list tree := match stk with [] => [] | a :: r => sn_atom a ++ sn r end.
+Lemma sn_app a b : sn (a ++ b) = sn a ++ sn b.
+Proof. induction a as [|x a IH]; cbn [sn app]; [reflexivity|]. now rewrite IH, app_assoc. Qed.
+
+Lemma nodup_drop_mid {A} (a b c : list A) : NoDup (a ++ b ++ c) -> NoDup (a ++ c).
+Proof.
+  intros Hn. apply NoDup_app_inv in Hn as (Ha & Hbc & Hd). apply NoDup_app_inv in Hbc as (_ & Hc & _).
+  apply NoDup_app_intro; auto. intros x Hx Hc'. apply (Hd x Hx). apply in_or_app. now right.
+Qed.
+Lemma nodup_swap_mid {A} (a b c d : list A) : NoDup (a ++ b ++ c ++ d) -> NoDup (a ++ c ++ b ++ d).
+Proof.
+  intros Hn. eapply Permutation_NoDup; [|exact Hn]. apply Permutation_app_head.
+  rewrite !app_assoc. apply Permutation_app_tail. apply Permutation_app_comm.
+Qed.
+
+Lemma canon_alloc s : forall d P Q,
+  NoDup (P ++ nodes s ++ Q) -> NoDup (P ++ sn (canon s d) ++ todo (canon s d) ++ Q).
+Proof.
+  induction s as [|k v|lbl lf l IHl r IHr]; intros d P Q Hn.
+  - exact Hn.
+  - cbn [canon sn todo app]. apply (nodup_drop_mid P [Leaf k v] Q). exact Hn.
+  - cbn [nodes] in Hn. cbn [canon].
+    assert (NoDup (P ++ [(Node lbl lf l r)] ++ nodes l ++ nodes r ++ Q)) as Hn1.
+    { replace (P ++ ((Node lbl lf l r) :: lfnode lf ++ nodes l ++ nodes r) ++ Q)
+        with ((P ++ [(Node lbl lf l r)]) ++ lfnode lf ++ (nodes l ++ nodes r ++ Q)) in Hn
+        by (cbn [app]; rewrite <- !app_assoc; reflexivity).
+      apply nodup_drop_mid in Hn. rewrite <- app_assoc in Hn. exact Hn. }
+    destruct (d <=? nlf lf).
+    + assert (NoDup (P ++ sn [((Node lbl lf l r), VA)] ++ todo [((Node lbl lf l r), VA)] ++ Q)) as G.
+      { cbn [sn sn_atom todo todo_atom fst snd app]. rewrite app_nil_r, <- !app_assoc. exact Hn1. }
+      destruct l, r; try exact G. cbn [sn todo app]. cbn [nodes app] in Hn1. apply (nodup_drop_mid P [(Node lbl lf Nil Nil)] Q). exact Hn1.
+    + destruct (d - nlf lf <? tot l).
+      * rewrite sn_app, todo_app. cbn [sn sn_atom todo todo_atom fst snd app]. rewrite !app_nil_r, <- !app_assoc.
+        specialize (IHl (d - nlf lf) (P ++ [(Node lbl lf l r)]) (nodes r ++ Q)). rewrite <- !app_assoc in IHl. specialize (IHl Hn1).
+        apply (nodup_swap_mid P [(Node lbl lf l r)] (sn (canon l (d - nlf lf)))) in IHl. exact IHl.
+      * destruct (d - nlf lf =? tot l).
+        -- assert (NoDup (P ++ sn [((Node lbl lf l r), VL)] ++ todo [((Node lbl lf l r), VL)] ++ Q)) as G.
+           { cbn [sn sn_atom todo todo_atom fst snd app]. rewrite app_nil_r.
+             replace (P ++ [(Node lbl lf l r)] ++ nodes l ++ nodes r ++ Q) with ((P ++ [(Node lbl lf l r)]) ++ nodes l ++ (nodes r ++ Q)) in Hn1
+               by (rewrite <- !app_assoc; reflexivity).
+             apply nodup_drop_mid in Hn1. rewrite <- !app_assoc in Hn1. exact Hn1. }
+           destruct r; try exact G. cbn [sn todo app].
+           replace (P ++ [(Node lbl lf l Nil)] ++ nodes l ++ nodes Nil ++ Q) with (P ++ ([(Node lbl lf l Nil)] ++ nodes l) ++ Q) in Hn1
+             by (cbn [nodes app]; rewrite <- ?app_assoc; reflexivity).
+           apply nodup_drop_mid in Hn1. exact Hn1.
+        -- destruct (d - nlf lf - tot l <? tot r).
+           ++ rewrite sn_app, todo_app. cbn [sn sn_atom todo todo_atom fst snd app]. rewrite !app_nil_r, <- !app_assoc.
+              replace (P ++ [(Node lbl lf l r)] ++ nodes l ++ nodes r ++ Q) with ((P ++ [(Node lbl lf l r)]) ++ nodes l ++ (nodes r ++ Q)) in Hn1
+                by (rewrite <- !app_assoc; reflexivity).
+              apply nodup_drop_mid in Hn1.
+              specialize (IHr (d - nlf lf - tot l) (P ++ [(Node lbl lf l r)]) Q Hn1). rewrite <- !app_assoc in IHr.
+              apply (nodup_swap_mid P [(Node lbl lf l r)] (sn (canon r (d - nlf lf - tot l)))) in IHr. exact IHr.
+           ++ cbn [sn todo app].
+              replace (P ++ [(Node lbl lf l r)] ++ nodes l ++ nodes r ++ Q) with (P ++ ([(Node lbl lf l r)] ++ nodes l ++ nodes r) ++ Q) in Hn1
+                by (rewrite <- !app_assoc; reflexivity).
+              apply nodup_drop_mid in Hn1. exact Hn1.
+Qed.
+
+Lemma nodes_trans s : forall n, In n (nodes s) -> incl (nodes n) (nodes s).
+Proof.
+  induction s as [|k v|lbl lf l IHl r IHr]; intros n Hn; cbn [nodes] in Hn.
+  - destruct Hn.
+  - destruct Hn as [<-|[]]. intros x Hx; exact Hx.
+  - destruct Hn as [<-|Hn]; [intros x Hx; exact Hx|]. rewrite !in_app_iff in Hn.
+    intros x Hx. cbn [nodes]. right. rewrite !in_app_iff. destruct Hn as [Hn|[Hn|Hn]].
+    + apply lfnode_contents in Hn as (k & v & -> & ->). destruct Hx as [<-|[]]. left. cbn. auto.
+    + right; left. eapply IHl; eauto.
+    + right; right. eapply IHr; eauto.
+Qed.
+
+Lemma leafy_in s n : leafy s -> In n (nodes s) -> leafy n.
+Proof. intros L Hn m Hm. apply L. eapply nodes_trans; eauto. Qed.
+
+Lemma wf_leafy q s : wf_at q s -> leafy s.
+Proof. intros W m Hm. destruct (nodes_facts _ _ W _ Hm) as (_ & ? & _). assumption. Qed.
+
+Lemma pops_bound s : pops s <= 4 * tnodes s.
+Proof.
+  induction s as [|k v|lbl lf l IHl r IHr]; cbn [pops tnodes]; try lia.
+  assert (length (lf_contents lf) <= 1) by (destruct lf; cbn; lia). lia.
+Qed.
+
+Lemma lrep_smu s d stk : lrep s d stk -> smu stk <= pops s.
+Proof.
+  assert (forall a b, smu (a ++ b) = smu a + smu b) as Happ
+    by (induction a as [|x a IH]; intros b; cbn [smu app]; [reflexivity|rewrite IH; lia]).
+  induction 1; try rewrite Happ; cbn [smu]; unfold mu_atom; cbn [fst snd pops lf_contents length]; try lia.
+Qed.
+
+Lemma nsize_cons x l : nsize_sum (x :: l) = (node_size x + nsize_sum l)%N.
+Proof. reflexivity. Qed.
+Lemma nsize_perm l1 l2 : Permutation l1 l2 -> nsize_sum l1 = nsize_sum l2.
+Proof. induction 1; rewrite ?nsize_cons; try lia. Qed.
+Lemma nsize_app a b : nsize_sum (a ++ b) = (nsize_sum a + nsize_sum b)%N.
+Proof. induction a as [|x a IH]; cbn [app]; rewrite ?nsize_cons; [cbn; lia|]. rewrite IH. lia. Qed.
+
+Lemma opened_sn stk : opened stk = nsize_sum (sn stk).
+Proof.
+  induction stk as [|[n st] r IH]; [reflexivity|]. cbn [opened sn]. rewrite nsize_app, IH.
+  unfold opened_atom, sn_atom. cbn [fst snd]. destruct st; cbn; lia.
+Qed.
+
+Lemma margs_head n : leafy n -> n <> Nil -> exists e m r, margs n = (e, m) :: r /\ In e (contents n).
+Proof.
+  intros L Hn. pose proof (L n (nodes_self n Hn)) as Hc. pose proof (margs_entries n) as E.
+  destruct (margs n) as [|[e m] r]; [exfalso; apply Hc; rewrite <- E; reflexivity|]. exists e, m, r. split; [reflexivity|].
+  rewrite <- E. cbn. auto.
+Qed.
+
+Section RunFrom.
+  Variable s : tree.
+  Variable q : path.
+  Hypothesis Ws : wf_at q s.
+  Variable d0 : nat.
+  Variable inc0 : list tree.
+
+  Definition J (c : cfg) : Prop :=
+    let '(stk, pb, ll, vis, jl) := c in
+    (incl inc0 (inc pb) /\ (jl = true -> ll = true)) /\
+    good stk pb /\ lrep s (d0 + length vis) stk /\ (jl = true -> arep s (d0 + length vis) stk) /\
+    (forall n, In n (inc pb) ->
+       (exists e, In e vis /\ In e (contents n)) \/
+       (ll = false /\ exists e m r, fut stk = (e, m) :: r /\ In e (contents n))) /\
+    (forall e n, In e vis -> In n (nodes s) -> In e (contents n) -> In n (inc pb)).
+
+  Lemma J_step a rest pb ll vis jl : J (a :: rest, pb, ll, vis, jl) -> J (cstep a rest pb ll vis).
+  Proof.
+    intros ((H0 & _) & Hg & Hl & _ & HA & HB).
+    destruct (good_step a rest pb Hg) as (Hg' & Hinc & _).
+    pose proof (fut_step a rest pb Hg) as Hf.
+    pose proof (lrep_step _ _ _ _ Hl) as Hl'.
+    assert (incl (inc pb) (inc (include (fst a) pb))) as Hmono
+      by (rewrite Hinc; destruct (match snd a with VB => true | _ => false end); intros x Hx; [now right|assumption]).
+    unfold cstep. destruct (mstep a rest) as [stk1 e1] eqn:Ems. cbn [fst snd] in *.
+    destruct e1 as [e| |]; cbn [leafev] in Hl'.
+    - (* leaf *)
+      destruct Hf as [Hf Hvb]. rewrite Hvb in Hinc.
+      assert (exists k v, a = (Leaf k v, VB) /\ e = (k, v)) as (k & v & -> & ->).
+      { destruct a as [nd st]. cbn [snd] in Hvb. subst st. unfold mstep in Ems. cbn [fst snd] in Ems.
+        destruct nd as [|k v|? ? ? ?]; try discriminate. injection Ems as _ <-. eauto. }
+      cbn [fst] in *. refine (conj (conj (fun x Hx => Hmono x (H0 x Hx)) _) (conj Hg' (conj _ (conj _ (conj _ _))))).
+      + reflexivity.
+      + cbn [length]. replace (d0 + S (length vis)) with (d0 + length vis + 1) by lia. exact Hl'.
+      + intros _. cbn [length]. replace (d0 + S (length vis)) with (d0 + length vis + 1) by lia.
+        replace stk1 with (fst (mstep (Leaf k v, VB) rest)) by (now rewrite Ems).
+        eapply lrep_leaf_arep; [exact Hl|now rewrite Ems].
+      + intros n Hn. left. rewrite Hinc in Hn. destruct Hn as [<-|Hn].
+        * exists (k, v). split; [now left|cbn; auto].
+        * destruct (HA n Hn) as [(e & He & Hc)|(_ & e & m & r & Ef & Hc)].
+          -- exists e. split; [now right|assumption].
+          -- rewrite Hf in Ef. injection Ef as <- _ _. exists (k, v). split; [now left|assumption].
+      + intros e n [<-|He] Hn Hc.
+        * rewrite Hinc. destruct (lrep_top_leaf _ _ _ _ _ Hl _ Ws n Hn Hc) as [->|(st & Hi & Hs)]; [now left|].
+          right. destruct Hg as (_ & _ & Hat). destruct (Hat n st (or_intror Hi)) as (_ & Hin & _). auto.
+        * apply Hmono. eapply HB; eauto.
+    - (* open *)
+      destruct Hf as (Hf & Hne & Hvb). rewrite Hvb in Hinc. refine (conj (conj (fun x Hx => Hmono x (H0 x Hx)) _) (conj Hg' (conj _ (conj _ (conj _ _))))).
+      + discriminate.
+      + rewrite Nat.add_0_r in Hl'. exact Hl'.
+      + discriminate.
+      + intros n Hn. destruct (fut stk1) as [|[e m] r] eqn:Ef; [congruence|]. cbn [bumpm] in Hf.
+        rewrite Hinc in Hn. destruct Hn as [<-|Hn].
+        * right. split; [reflexivity|]. exists e, m, r. split; [reflexivity|].
+          destruct Hg as (_ & _ & Hat). destruct a as [nd st]. cbn [fst snd] in *. subst st.
+          destruct (Hat nd VB (or_introl eq_refl)) as (Hnn & _ & _ & Hly).
+          destruct (margs_head nd Hly Hnn) as (e' & m' & r' & Em & Hc).
+          cbn [fut fut_atom fst snd] in Hf. rewrite Em in Hf. cbn [app] in Hf. injection Hf as -> _ _. exact Hc.
+        * destruct (HA n Hn) as [(e' & He & Hc)|(Hll & e' & m' & r' & Ef' & Hc)].
+          -- left. eauto.
+          -- right. split; [reflexivity|]. exists e, m, r. split; [reflexivity|].
+             rewrite Hf in Ef'. injection Ef' as <- _ _. exact Hc.
+      + intros e n He Hn Hc. apply Hmono. eapply HB; eauto.
+    - (* a state transition *)
+      destruct Hf as [Hf Hnvb].
+      assert (inc (include (fst a) pb) = inc pb) as Hinc' by (rewrite Hinc; destruct (snd a); congruence).
+      refine (conj (conj (fun x Hx => Hmono x (H0 x Hx)) _) (conj Hg' (conj _ (conj _ (conj _ _))))).
+      + discriminate.
+      + rewrite Nat.add_0_r in Hl'. exact Hl'.
+      + discriminate.
+      + intros n Hn. rewrite Hinc' in Hn. rewrite <- Hf. auto.
+      + intros e n He Hn Hc. rewrite Hinc'. eapply HB; eauto.
+  Qed.
+End RunFrom.
+
+Section NextChunk.
+  Variable H : bytes -> bytes.
+  Variable t : tree.
+  Hypothesis Wt : wf t.
+  Variable size : N.
+
+  Lemma next_run_incl l : incl (next_run size l) (map aentry l).
+  Proof. intros e He. rewrite (next_run_split size l). apply in_or_app. now left. Qed.
+
+  Lemma run_from s q path d stk pb fuel a0 r0 m :
+    wf_at q s -> achain t path s ->
+    good stk pb -> lrep s d stk -> smu stk < fuel ->
+    (forall n, In n path -> In n (inc pb)) ->
+    (forall n, In n (inc pb) -> exists e m' r, fut stk = (e, m') :: r /\ In e (contents n)) ->
+    skipn d (annot (nsize_sum path) s) = a0 :: r0 ->
+    fut stk = (aentry a0, m) :: map toem r0 -> (psize pb + m = afull a0)%N ->
+    let run := next_run size (skipn d (annot (nsize_sum path) s)) in
+    exists stk' pb',
+      nc_loop fuel size stk pb false [] = Some (stk', pb', run) /\
+      trim stk' = canon s (d + length run) /\
+      pbuild H (inc pb') t = chunk_of H (inrun run) t.
+  Proof.
+    intros Ws Hch Hg Hl Hfu Hpath HA0 Esk Efut Epsz run.
+    destruct (loop_run size fuel stk pb false [] false Hg Hfu ltac:(discriminate))
+      as (stk' & pb' & ll' & jl' & E & R & F).
+    assert (visits size stk pb false = run) as Ev.
+    { unfold visits, run. rewrite Efut, Esk, Epsz. destruct a0 as [[e f] mm]. cbn [next_run aentry fst].
+      now rewrite take_more_tm. }
+    rewrite Ev in E, R. cbn [rev app] in E, R.
+    assert (J s d path (stk', pb', ll', rev run, jl')) as Jend.
+    { eapply (reach_inv (J s d path)); [|exact R|].
+      - intros. eapply (J_step s q Ws); eauto.
+      - refine (conj (conj Hpath _) (conj Hg (conj _ (conj _ (conj _ _))))).
+        + discriminate.
+        + cbn [length]. rewrite Nat.add_0_r. exact Hl.
+        + discriminate.
+        + intros n Hn. right. split; [reflexivity|]. destruct (HA0 n Hn) as (e & m' & r & ? & ?). eauto.
+        + intros e n []. }
+    destruct Jend as ((Hp' & Hjl) & Hg' & Hl' & Ha' & HA & HB). rewrite rev_length in Hl', Ha'.
+    exists stk', pb'. split; [exact E|].
+    assert (run <> []) as Hrne by (unfold run; rewrite Esk; destruct a0 as [[? ?] ?]; discriminate).
+    assert (1 <= length run) as Hlen by (destruct run; [congruence|cbn; lia]).
+    pose proof (wf_leafy _ _ Ws) as Ly.
+    split.
+    - destruct F as [->|Hj].
+      + apply lrep_nil in Hl'. cbn [trim]. symmetry. apply canon_done; auto; lia.
+      + apply trim_arep; auto.
+    - apply pbuild_eq. intros n Hn. split.
+      + intros Hi. destruct (HA n Hi) as [(e & He & Hc)|(Hll & e & m' & r & Ef & _)].
+        * apply in_rev in He. destruct e as [k v]. exists k, v. split; [assumption|]. eapply inrun_self; eauto.
+        * exfalso. destruct F as [->|Hj]; [discriminate|]. rewrite (Hjl Hj) in Hll. discriminate.
+      + intros (k & v & Hc & Hs).
+        assert (exists v', In (k, v') run) as (v' & Hr).
+        { unfold inrun in Hs. apply existsb_exists in Hs as ([k' v'] & Hin & Hk). cbn in Hk.
+          apply bytes_eqb_eq in Hk. subst k'. eauto. }
+        assert (In (k, v') (contents s)) as Hcs.
+        { apply next_run_incl in Hr. rewrite <- skipn_map, annot_entries in Hr.
+          rewrite <- (firstn_skipn d (contents s)). apply in_or_app. now right. }
+        pose proof (achain_sub _ _ _ Hch) as Hsub.
+        assert (v' = v) as ->.
+        { eapply (sorted_key_unique (contents t)); [now apply contents_sorted|eapply sub_contents; eauto|].
+          destruct (nodes_facts _ _ Wt _ Hn) as (_ & _ & Ic & _). now apply Ic. }
+        destruct (achain_anc _ _ _ Hch _ Wt n (k, v) Hn Hcs Hc) as [Hp|Hns]; [now apply Hp'|].
+        eapply HB; eauto. apply in_rev. now rewrite rev_involutive.
+  Qed.
+End NextChunk.
+
+(* ------------------------------------------------------------------ *)
+(* 6. the representation relation and the three one-step facts          *)
+(* ------------------------------------------------------------------ *)
+Definition cstack (s : tree) (d : nat) : list atom :=
+  match d with O => [(s, VB)] | _ => canon s d end.
+
+Lemma canon_contains s : forall d e n st,
+  In (n, st) (canon s d) -> nth_error (contents s) d = Some e -> In e (contents n).
+Proof.
+  induction s as [|k v|lbl lf l IHl r IHr]; intros d e n st Hin Hnth; cbn [canon] in Hin; try destruct Hin.
+  assert (forall st0, (n, st) = (Node lbl lf l r, st0) -> In e (contents n)) as Hself.
+  { intros st0 [= -> ->]. eapply nth_error_In; eauto. }
+  cbn [contents] in Hnth. fold (nlf lf) in *.
+  destruct (Nat.leb_spec d (nlf lf)).
+  - assert (In (n, st) [(Node lbl lf l r, VA)]) as Hin' by (destruct l, r; (exact Hin || destruct Hin)).
+    destruct Hin' as [E|[]]. symmetry in E. eauto.
+  - rewrite nth_error_app2 in Hnth by (unfold nlf in *; lia). fold (nlf lf) in Hnth.
+    destruct (Nat.ltb_spec (d - nlf lf) (tot l)).
+    + rewrite nth_error_app1 in Hnth by assumption.
+      rewrite in_app_iff in Hin. destruct Hin as [Hin|[E|[]]]; [|symmetry in E; eapply Hself; eauto].
+      eapply IHl; eauto.
+    + destruct (Nat.eqb_spec (d - nlf lf) (tot l)).
+      * assert (In (n, st) [(Node lbl lf l r, VL)]) as Hin' by (destruct r; (exact Hin || destruct Hin)).
+        destruct Hin' as [E|[]]. symmetry in E. eapply Hself; eauto.
+      * destruct (Nat.ltb_spec (d - nlf lf - tot l) (tot r)); [|destruct Hin].
+        rewrite nth_error_app2 in Hnth by assumption. fold (tot l) in Hnth.
+        rewrite in_app_iff in Hin. destruct Hin as [Hin|[E|[]]]; [|symmetry in E; eapply Hself; eauto].
+        eapply IHr; eauto.
+Qed.
+
+Lemma include_idem n pb : pb_ok pb -> include n (include n pb) = include n pb.
+Proof.
+  intros Hok. destruct (include_ok n pb Hok) as [Hok' Hin].
+  unfold include at 1. destruct n as [|k v|lbl lf l r]; [reflexivity| |];
+    (destruct (existsb _ (inc (include _ pb))) eqn:E; [reflexivity|]);
+    exfalso; assert (E' : existsb (tree_eqb _) (inc (include _ pb)) = true)
+      by (apply mem_tree_in; apply Hin; right; split; [reflexivity|discriminate]);
+    rewrite E' in E; discriminate.
+Qed.
+
+Lemma fold_include_map (l : list atom) pb :
+  fold_left (fun pb a => include (fst a) pb) l pb = fold_left (fun pb n => include n pb) (map fst l) pb.
+Proof. revert pb; induction l as [|a l IH]; intros pb; cbn [fold_left map]; auto. Qed.
+
+Lemma next_run_len size l : length (next_run size l) <= length l.
+Proof.
+  pose proof (next_run_split size l) as E. apply (f_equal (@length entry)) in E.
+  rewrite map_length, app_length in E. lia.
+Qed.
+
+Section Premises.
+  Variable H : bytes -> bytes.
+  Variable t : tree.
+  Hypothesis Wt : wf t.
+  Variable size : N.
+
+  Definition Rrep (st : stask) (c : task) : Prop :=
+    tsub c <> Nil /\ achain t (spath st) (tsub c) /\ tanc c = nsize_sum (spath st) /\
+    tdone c <= tot (tsub c) /\ spend st = cstack (tsub c) (tdone c).
+
+  Lemma Rrep_wf st c : Rrep st c -> exists q, wf_at q (tsub c).
+  Proof. intros (_ & Hch & _). eapply sub_wf; [eapply achain_sub; eauto|exact Wt]. Qed.
+
+  (* --- hasNext --- *)
+  Lemma fin_agree st c : Rrep st c -> s_finished st = negb (unfinished c).
+  Proof.
+    intros Hr. destruct (Rrep_wf _ _ Hr) as [q Wq]. pose proof (wf_leafy _ _ Wq) as Ly.
+    destruct Hr as (Hn & _ & _ & Hle & Hsp). unfold s_finished, unfinished. rewrite Hsp. fold (tot (tsub c)).
+    pose proof (leafy_tot _ Ly Hn) as Ht. unfold cstack. destruct (tdone c) as [|d'] eqn:Ed.
+    - destruct (Nat.ltb_spec 0 (tot (tsub c))); [reflexivity|lia].
+    - destruct (Nat.ltb_spec (S d') (tot (tsub c))).
+      + pose proof (canon_nonempty (tsub c) (S d') ltac:(lia) ltac:(assumption) Ly).
+        destruct (canon (tsub c) (S d')); [congruence|reflexivity].
+      + rewrite canon_done by (auto; lia). reflexivity.
+  Qed.
+
+  (* --- nextChunk --- *)
+  Lemma next_agree st c :
+    Rrep st c -> unfinished c = true ->
+    exists st', s_next_chunk H t size st =
+                Some (chunk_of H (inrun (task_run size c)) t, task_run size c, st') /\
+                Rrep st' (advance size c).
+  Proof.
+    intros Hr Hu. destruct (Rrep_wf _ _ Hr) as [q Wq]. pose proof (wf_leafy _ _ Wq) as Ly.
+    destruct Hr as (Hn & Hch & Ha & Hle & Hsp).
+    destruct st as [path stk], c as [s a d]. cbn [tsub tanc tdone spath spend] in *. subst a stk.
+    unfold unfinished in Hu. cbn [tsub tdone] in Hu. apply Nat.ltb_lt in Hu. fold (tot s) in Hu.
+    unfold s_next_chunk. cbn [spath spend].
+    rewrite fold_include_map, <- fold_left_app.
+    set (run := task_run size (mk s (nsize_sum path) d)).
+    assert (run = next_run size (skipn d (annot (nsize_sum path) s))) as Erun by reflexivity.
+    (* the remaining keys *)
+    destruct (skipn d (annot (nsize_sum path) s)) as [|a0 r0] eqn:Esk.
+    { apply (f_equal (@length aent)) in Esk. rewrite skipn_length, annot_length in Esk. unfold tot in Hu. cbn in Esk. lia. }
+    pose proof (achain_nodup _ _ _ Hch _ Wt) as Hnd.
+    assert (4 * tnodes s < 4 * tnodes t + 4) as Hfuel.
+    { pose proof (achain_incl _ _ _ Hch s (in_or_app _ _ _ (or_intror (nodes_self s Hn)))) as Hin.
+      destruct (nodes_facts _ _ Wt _ Hin) as (_ & _ & _ & L & _). lia. }
+    assert (forall stk', Rrep (mks path (trim stk')) (advance size (mk s (nsize_sum path) d)) <->
+                         trim stk' = canon s (d + length run)) as Hres.
+    { intros stk'. unfold Rrep, advance. cbn [tsub tanc tdone spath spend]. fold run.
+      assert (1 <= length run) by (rewrite Erun; destruct a0 as [[? ?] ?]; cbn; lia).
+      assert (d + length run <= tot s).
+      { pose proof (next_run_len size (a0 :: r0)) as Ll. rewrite <- Erun in Ll.
+        apply (f_equal (@length aent)) in Esk. rewrite skipn_length, annot_length in Esk. unfold tot. lia. }
+      unfold cstack. destruct (d + length run) eqn:E; [lia|]. rewrite <- E.
+      split; [intros (_ & _ & _ & _ & X); exact X|intros X; repeat split; auto; lia]. }
+    destruct d as [|d'].
+    - (* a fresh task: pending = [subtree root], already included up front *)
+      cbn [cstack rev map app]. rewrite fold_left_app. cbn [fold_left fst].
+      set (pbP := fold_left (fun pb n => include n pb) path (mkpb [] 0%N)).
+      destruct (pb_size_is_sum_l path) as (HndP & HszP & HinP). fold pbP in HndP, HszP, HinP.
+      assert (pb_ok pbP) as HokP.
+      { repeat split; auto. intros Hi. apply HinP in Hi as [_ Hi]. congruence. }
+      assert (forall n, In n path -> n <> Nil).
+      { intros n Hi Hnil. subst n. pose proof (achain_incl _ _ _ Hch Nil (in_or_app _ _ _ (or_introl Hi))) as Hin.
+        destruct (nodes_facts _ _ Wt _ Hin) as (Hnn & _). congruence. }
+      assert (Permutation (inc pbP) path) as Hperm.
+      { apply NoDup_Permutation; auto.
+        - apply NoDup_app_inv in Hnd as (Hp & _). exact Hp.
+        - intros x. rewrite HinP. split; [tauto|]. intros Hx. split; auto. }
+      assert (nc_loop (4 * tnodes t + 4) size [(s, VB)] (include s pbP) false [] =
+              nc_loop (4 * tnodes t + 4) size [(s, VB)] pbP false []) as Esame.
+      { replace (4 * tnodes t + 4) with (S (4 * tnodes t + 3)) by lia. rewrite !nc_loop_unfold.
+        rewrite !andb_false_r. cbn [fst]. now rewrite include_idem. }
+      rewrite Esame.
+      destruct (run_from H t Wt size s q path 0 [(s, VB)] pbP (4 * tnodes t + 4) a0 r0 (amarg a0) Wq Hch)
+        as (stk' & pb' & E & Etrim & Epb).
+      + (* good *)
+        split; [exact HokP|]. split.
+        * cbn [todo todo_atom fst snd]. rewrite app_nil_r.
+          eapply Permutation_NoDup; [|exact Hnd]. apply Permutation_app_tail. now apply Permutation_sym.
+        * intros n st [[= <- <-]|[]]. repeat split; auto; congruence.
+      + now apply lr_fresh.
+      + cbn [smu]. unfold mu_atom. cbn [fst snd]. pose proof (pops_bound s). lia.
+      + intros n Hi. apply HinP. split; auto.
+      + intros n Hi. apply HinP in Hi as [Hi _].
+        destruct (margs_head s Ly Hn) as (e & m' & r & Em & Hc). exists e, m', r.
+        cbn [fut fut_atom fst snd]. rewrite app_nil_r. split; [exact Em|].
+        eapply achain_contains; eauto.
+      + exact Esk.
+      + cbn [fut fut_atom fst snd skipn] in *. rewrite app_nil_r. rewrite <- (margs_any s (nsize_sum path)), Esk.
+        destruct a0 as [[e f] m]. reflexivity.
+      + rewrite HszP, (nsize_perm _ _ Hperm). cbn [skipn] in Esk. symmetry. eapply annot_first; eauto.
+      + rewrite Esk in E, Etrim, Epb. rewrite <- Erun in E, Etrim, Epb. rewrite E. eexists. split; [rewrite Epb; reflexivity|].
+        apply Hres. exact Etrim.
+    - (* at least one key of the subtree visited before: the canonical stack *)
+      cbn [cstack]. set (d := S d') in *. set (stk := canon s d).
+      set (pb1 := fold_left (fun pb n => include n pb) (path ++ map fst (rev stk)) (mkpb [] 0%N)).
+      destruct (pb_size_is_sum_l (path ++ map fst (rev stk))) as (Hnd1 & Hsz1 & Hin1). fold pb1 in Hnd1, Hsz1, Hin1.
+      pose proof (canon_atoms s d) as Hat. fold stk in Hat.
+      assert (sn stk = map fst stk) as Esn.
+      { clear - Hat. induction stk as [|[n st] r IH]; [reflexivity|]. cbn [sn map]. unfold sn_atom. cbn [fst snd].
+        destruct (Hat n st (or_introl eq_refl)) as (Hs & _). destruct st; try congruence; cbn [app]; f_equal;
+          apply IH; intros; apply Hat; now right. }
+      pose proof (canon_alloc s d path [] ltac:(rewrite app_nil_r; exact Hnd)) as Hall. fold stk in Hall.
+      rewrite app_nil_r in Hall.
+      assert (NoDup (path ++ sn stk)) as Hnd2.
+      { rewrite app_assoc in Hall. apply NoDup_app_inv in Hall as (Hx & _). exact Hx. }
+      assert (forall n, In n (path ++ sn stk) -> n <> Nil) as Hnn.
+      { intros n Hi Hnil. subst n. apply in_app_or in Hi as [Hi|Hi].
+        - pose proof (achain_incl _ _ _ Hch Nil (in_or_app _ _ _ (or_introl Hi))) as Hin.
+          destruct (nodes_facts _ _ Wt _ Hin) as (Hnn & _). congruence.
+        - rewrite Esn in Hi. apply in_map_iff in Hi as ([n st] & E & Hi). cbn in E. subst n.
+          destruct (Hat _ _ Hi) as (_ & _ & _ & Hx). congruence. }
+      assert (Permutation (inc pb1) (path ++ sn stk)) as Hperm.
+      { apply NoDup_Permutation; auto. intros x. rewrite Hin1, Esn, !in_app_iff, map_rev, <- in_rev. split.
+        - tauto.
+        - intros Hx. split; [assumption|]. apply Hnn. rewrite Esn. apply in_or_app. exact Hx. }
+      assert (pb_ok pb1) as Hok1.
+      { repeat split; auto. intros Hi. apply Hin1 in Hi as [_ Hi]. congruence. }
+      pose proof (canon_fut s d (nsize_sum path) ltac:(lia) Hu Ly) as Hcf. rewrite Esk in Hcf. fold stk in Hcf.
+      destruct Hcf as (m & Efut & Efull).
+      destruct (run_from H t Wt size s q path d stk pb1 (4 * tnodes t + 4) a0 r0 m Wq Hch)
+        as (stk' & pb' & E & Etrim & Epb).
+      + split; [exact Hok1|]. split.
+        * eapply Permutation_NoDup; [apply Permutation_app_tail, Permutation_sym; exact Hperm|].
+          rewrite <- app_assoc. exact Hall.
+        * intros n st Hi. destruct (Hat n st Hi) as (Hs & Hns & Hnl & Hnn').
+          repeat split; auto.
+          -- intros _. eapply Permutation_in; [apply Permutation_sym; exact Hperm|].
+             apply in_or_app. right. rewrite Esn. apply in_map_iff. exists (n, st). auto.
+          -- intros Hl. contradiction.
+          -- eapply leafy_in; eauto.
+      + apply canon_lrep; auto; lia.
+      + pose proof (lrep_smu s d stk (canon_lrep s d ltac:(lia) ltac:(lia) Ly)). pose proof (pops_bound s). lia.
+      + intros n Hi. eapply Permutation_in; [apply Permutation_sym; exact Hperm|]. apply in_or_app. now left.
+      + intros n Hi. exists (aentry a0), m, (map toem r0). split; [exact Efut|].
+        assert (nth_error (contents s) d = Some (aentry a0)) as Hnth.
+        { rewrite <- (annot_entries s (nsize_sum path)), nth_error_map.
+          rewrite <- (firstn_skipn d (annot (nsize_sum path) s)), Esk.
+          rewrite nth_error_app2 by (rewrite firstn_length; lia).
+          rewrite firstn_length, annot_length. fold (tot s). replace (d - Nat.min d (tot s)) with 0 by lia. reflexivity. }
+        eapply Permutation_in in Hi; [|exact Hperm]. apply in_app_or in Hi as [Hi|Hi].
+        * eapply achain_contains; eauto. eapply nth_error_In; eauto.
+        * rewrite Esn in Hi. apply in_map_iff in Hi as ([n' st] & En & Hi). cbn in En. subst n'.
+          eapply canon_contains; eauto.
+      + exact Esk.
+      + exact Efut.
+      + rewrite Hsz1, (nsize_perm _ _ Hperm), nsize_app, <- opened_sn. exact Efull.
+      + rewrite Esk in E, Etrim, Epb. rewrite <- Erun in E, Etrim, Epb.
+        rewrite E. eexists. split; [rewrite Epb; reflexivity|]. apply Hres. exact Etrim.
+  Qed.
+End Premises.
+
+From Verif Require Import Ckpt.StackProofs.
+
+Section Premises2.
+  Variable H : bytes -> bytes.
+  Variable t : tree.
+  Hypothesis Wt : wf t.
+
+  Notation RUrep := (RU (Rrep t)).
+
+  Lemma child_rel path s lbl lf l r c a :
+    s = Node lbl lf l r -> achain t path s -> (c = l \/ c = r) -> a = nsize_sum path ->
+    Forall2 RUrep (s_child path s c) (child_tasks (a + node_cost lbl lf) [c]).
+  Proof.
+    intros Es Hch Hc Ea. subst s.
+    destruct c as [|k v|lb2 lf2 l2 r2] eqn:Ec; cbn [s_child child_tasks flat_map app]; [constructor| |];
+      (constructor; [|constructor]); rewrite <- Ec in *.
+    all: destruct (achain_snoc _ _ _ _ _ _ Hch) as [Al Ar].
+    all: assert (achain t (path ++ [Node lbl lf l r]) c) as Hc' by (destruct Hc as [->| ->]; assumption).
+    all: destruct (sub_wf _ _ (achain_sub _ _ _ Hc') [] Wt) as [q Wq].
+    all: assert (c <> Nil) as Hn by (rewrite Ec; discriminate).
+    all: pose proof (leafy_tot _ (wf_leafy _ _ Wq) Hn) as Ht.
+    all: split; [unfold Rrep; cbn [tsub tanc tdone spath spend cstack]; repeat split; auto; try lia;
+                 rewrite nsize_app, Ea; cbn; lia
+                |unfold unfinished; cbn [tsub tdone]; apply Nat.ltb_lt; exact Ht].
+  Qed.
+
+  Lemma split_agree st c :
+    RUrep st c -> Forall2 RUrep (s_split st) (split c).
+  Proof.
+    intros [Hr Hu]. pose proof Hr as Hr0. destruct (Rrep_wf t Wt _ _ Hr) as [q Wq]. pose proof (wf_leafy _ _ Wq) as Ly.
+    destruct Hr as (Hn & Hch & Ha & Hle & Hsp).
+    destruct st as [path stk], c as [s a d]. cbn [tsub tanc tdone spath spend] in *. subst stk.
+    pose proof Hu as Hu0. unfold unfinished in Hu. cbn [tsub tdone] in Hu. apply Nat.ltb_lt in Hu. fold (tot s) in Hu.
+    assert (Forall2 RUrep [mks path (cstack s d)] [mk s a d]) as Hsame by (constructor; [split; assumption|constructor]).
+    unfold s_split, split. cbn [spend spath tsub tanc tdone].
+    destruct s as [|k v|lbl lf l r]; [congruence| |].
+    - (* a leaf: d = 0 *)
+      assert (d = 0) as -> by (unfold tot in Hu; cbn in Hu; lia). cbn [cstack rev app]. exact Hsame.
+    - rewrite tot_node in Hu. fold (nlf lf). fold (tot l).
+      pose proof (leafy_l _ _ _ _ Ly) as Ll. pose proof (leafy_r _ _ _ _ Ly) as Lr.
+      assert (Forall2 RUrep (s_child path (Node lbl lf l r) l ++ s_child path (Node lbl lf l r) r)
+                             (child_tasks (a + node_cost lbl lf) [l; r])) as Hkids.
+      { replace (child_tasks (a + node_cost lbl lf) [l; r])
+          with (child_tasks (a + node_cost lbl lf) [l] ++ child_tasks (a + node_cost lbl lf) [r])
+          by (unfold child_tasks; cbn [flat_map]; rewrite ?app_nil_r; reflexivity).
+        apply Forall2_app; eapply child_rel; eauto. }
+      destruct d as [|d'].
+      + (* fresh *)
+        cbn [cstack rev app]. destruct (Nat.leb_spec 0 (nlf lf)); [|lia].
+        destruct l, r; try exact Hkids. exact Hsame.
+      + assert (nlf lf <= 1) as Hnlf by (unfold nlf; destruct lf; cbn; lia).
+        change (cstack (Node lbl lf l r) (S d')) with (canon (Node lbl lf l r) (S d')) in *.
+        destruct (achain_snoc _ _ _ _ _ _ Hch) as [Al Ar].
+        destruct (Nat.leb_spec (S d') (nlf lf)) as [C1|C1].
+        * (* visitAt *)
+          assert (l = Nil -> r = Nil -> False) as Hlr by (intros -> ->; change (tot Nil) with 0 in Hu; lia).
+          assert (canon (Node lbl lf l r) (S d') = [(Node lbl lf l r, VA)]) as Ecan.
+          { cbn [canon]. fold (nlf lf). destruct (Nat.leb_spec (S d') (nlf lf)); [|lia].
+            destruct l, r; try reflexivity. exfalso. now apply Hlr. }
+          rewrite Ecan. cbn [rev app].
+          destruct l as [|kl vl|lb1 lf1 l1 r1] eqn:El, r as [|kr vr|lb2 lf2 l2 r2] eqn:Er;
+            try (exfalso; now apply Hlr); exact Hkids.
+        * destruct (Nat.ltb_spec (S d') (nlf lf + tot l)) as [C2|C2].
+          -- (* visitAtLeft, inside the left subtree *)
+             assert (canon (Node lbl lf l r) (S d') = canon l (S d' - nlf lf) ++ [(Node lbl lf l r, VL)]) as Ecan.
+             { cbn [canon]. fold (nlf lf). fold (tot l). destruct (Nat.leb_spec (S d') (nlf lf)); [lia|].
+               destruct (Nat.ltb_spec (S d' - nlf lf) (tot l)); [reflexivity|lia]. }
+             rewrite Ecan, rev_unit, rev_involutive.
+             pose proof (canon_nonempty l (S d' - nlf lf) ltac:(lia) ltac:(lia) Ll) as Hne.
+             match goal with |- context [match ?X with _ => _ end] => destruct X as [|x xs] eqn:Erev end.
+             { exfalso. apply Hne. apply (f_equal (@rev _)) in Erev. rewrite rev_involutive in Erev. exact Erev. }
+             apply Forall2_app; [eapply child_rel; eauto|].
+             constructor; [|constructor].
+             assert (l <> Nil) as Hln by (intros ->; change (tot Nil) with 0 in *; lia).
+             split.
+             ++ unfold Rrep. cbn [tsub tanc tdone spath spend]. repeat split; auto; try lia.
+                ** rewrite nsize_app, Ha. cbn. lia.
+                ** unfold cstack. destruct (S d' - nlf lf) eqn:E; [lia|]. reflexivity.
+             ++ unfold unfinished. cbn [tsub tdone]. apply Nat.ltb_lt. fold (tot l). lia.
+          -- destruct (Nat.eqb_spec (S d') (nlf lf + tot l)) as [C3|C3].
+             ++ (* visitAtLeft with only the subroot left *)
+                assert (r <> Nil) as Hrn by (intros ->; change (tot Nil) with 0 in *; lia).
+                assert (canon (Node lbl lf l r) (S d') = [(Node lbl lf l r, VL)]) as Ecan.
+                { cbn [canon]. fold (nlf lf). fold (tot l). destruct (Nat.leb_spec (S d') (nlf lf)); [lia|].
+                  destruct (Nat.ltb_spec (S d' - nlf lf) (tot l)); [lia|].
+                  destruct (Nat.eqb_spec (S d' - nlf lf) (tot l)); [|lia]. destruct r; congruence. }
+                rewrite Ecan in *. cbn [rev app]. exact Hsame.
+             ++ (* visitAtRight *)
+                assert (canon (Node lbl lf l r) (S d') = canon r (S d' - nlf lf - tot l) ++ [(Node lbl lf l r, VR)]) as Ecan.
+                { cbn [canon]. fold (nlf lf). fold (tot l). destruct (Nat.leb_spec (S d') (nlf lf)); [lia|].
+                  destruct (Nat.ltb_spec (S d' - nlf lf) (tot l)); [lia|].
+                  destruct (Nat.eqb_spec (S d' - nlf lf) (tot l)); [lia|].
+                  destruct (Nat.ltb_spec (S d' - nlf lf - tot l) (tot r)); [reflexivity|lia]. }
+                rewrite Ecan, rev_unit, rev_involutive.
+                constructor; [|constructor].
+                assert (r <> Nil) as Hrn by (intros ->; change (tot Nil) with 0 in *; lia).
+                split.
+                ** unfold Rrep. cbn [tsub tanc tdone spath spend]. repeat split; auto; try lia.
+                   --- rewrite nsize_app, Ha. cbn. lia.
+                   --- unfold cstack. destruct (S d' - nlf lf - tot l) eqn:E; [lia|]. reflexivity.
+                ** unfold unfinished. cbn [tsub tdone]. apply Nat.ltb_lt. fold (tot r). lia.
+  Qed.
+
+  (* ---------------- the refinement, without premises ---------------- *)
+  Theorem par_stack_refines_count_l size threads :
+    t <> Nil ->
+    exists res,
+      s_par H size threads t = Some (res, []) /\
+      map snd res = fst (par_runs size threads t) /\
+      map fst res = par_chunks H size threads t.
+  Proof.
+    intros Hn.
+    apply (par_stack_refines_count_partial_l H t size (Rrep t)).
+    - apply split_agree.
+    - intros s c [Hr Hu]. now apply next_agree.
+    - apply fin_agree. exact Wt.
+    - exact Hn.
+    - split.
+      + unfold Rrep, new_stask. cbn [tsub tanc tdone spath spend cstack]. repeat split; auto; try lia. apply ac_here.
+      + unfold unfinished. cbn [tsub tdone]. apply Nat.ltb_lt.
+        apply (leafy_tot t (wf_leafy _ _ Wt) Hn).
+  Qed.
+End Premises2.
